@@ -1642,4 +1642,3325 @@ theorem Rescaled.lb {u u' : Nat} {t t' : Token} (m : Nat) (h1 : t.type = T.lineB
 
 theorem CtxRel.init (u u' : Nat) : CtxRel u u' Ctx.init Ctx.init := ⟨rfl, rfl, Or.inl ⟨rfl, rfl⟩⟩
 
+/-! ### closed form of `post_filter` (across line breaks) -/
+
+def isLBt (t : Token) : Bool := t.type = T.lineBreak
+
+theorem isLB_some (t : Token) : isLB (some t) = isLBt t := rfl
+
+theorem joined_type (a b : Token) : (a.joined b).type = a.type := rfl
+
+theorem joined_isLBt (a b : Token) : isLBt (a.joined b) = isLBt a := rfl
+
+theorem joined_assoc (p a b : Token) : (p.joined a).joined b = p.joined (a.joined b) := by
+  simp [Token.joined, List.append_assoc]
+
+/-- collapse every run of consecutive line breaks into one (left-associated `joined`), `pend` = the run in progress -/
+def mergeGo : Option Token → List Token → List Token
+  | none, [] => []
+  | some p, [] => [p]
+  | none, t :: ts => if isLBt t then mergeGo (some t) ts else t :: mergeGo none ts
+  | some p, t :: ts => if isLBt t then mergeGo (some (p.joined t)) ts else p :: t :: mergeGo none ts
+
+def mergeLB (ts : List Token) : List Token := mergeGo none ts
+
+def dropLeadLB : List Token → List Token
+  | [] => []
+  | t :: ts => if isLBt t then ts else t :: ts
+
+def dropTrailLB : List Token → List Token
+  | [] => []
+  | [t] => if isLBt t then [] else [t]
+  | t :: u :: r => t :: dropTrailLB (u :: r)
+
+def trimLB (ts : List Token) : List Token := dropTrailLB (dropLeadLB ts)
+
+/-- what `post_filter` computes on well-shaped raw token lists: the significant tokens, runs of line breaks merged, no
+    line break first or last -/
+def norm (ts : List Token) : List Token := trimLB (mergeLB (significant ts))
+
+theorem dropTrailLB_cons_of_not {t : Token} (h : isLBt t = false) (z : List Token) :
+    dropTrailLB (t :: z) = t :: dropTrailLB z := by
+  cases z with
+  | nil => simp [dropTrailLB, h]
+  | cons u r => rfl
+
+theorem trim_comm : ∀ x : List Token, dropLeadLB (dropTrailLB x) = dropTrailLB (dropLeadLB x)
+  | [] => rfl
+  | [t] => by cases h : isLBt t <;> simp [dropTrailLB, dropLeadLB, h]
+  | t :: u :: r => by
+    cases h : isLBt t
+    · simp only [dropTrailLB, dropLeadLB, h, Bool.false_eq_true, ↓reduceIte]
+    · simp [dropTrailLB, dropLeadLB, h]
+
+/-- a pending run contributes one line break at the front, whatever it is -/
+theorem dropLead_mergeGo_some : ∀ (y : List Token) (p q : Token), isLBt p = true → isLBt q = true →
+    dropLeadLB (mergeGo (some p) y) = dropLeadLB (mergeGo (some q) y)
+  | [], p, q, hp, hq => by simp [mergeGo, dropLeadLB, hp, hq]
+  | t :: ts, p, q, hp, hq => by
+    cases h : isLBt t
+    · simp [mergeGo, h, dropLeadLB, hp, hq]
+    · simp only [mergeGo, h, ↓reduceIte]
+      exact dropLead_mergeGo_some ts _ _ (by rw [joined_isLBt]; exact hp) (by rw [joined_isLBt]; exact hq)
+
+theorem dropLead_mergeGo : ∀ (y : List Token) (p : Token), isLBt p = true →
+    dropLeadLB (mergeGo (some p) y) = dropLeadLB (mergeGo none y)
+  | [], p, hp => by simp [mergeGo, dropLeadLB, hp]
+  | t :: ts, p, hp => by
+    cases h : isLBt t
+    · simp [mergeGo, h, dropLeadLB, hp]
+    · simp only [mergeGo, h, ↓reduceIte]
+      exact dropLead_mergeGo_some ts _ _ (by rw [joined_isLBt]; exact hp) h
+
+/-- M1: a line break in front of everything does not matter -/
+theorem norm_lead (r : Token) (hr : isLBt r = true) (y : List Token) : trimLB (mergeLB (r :: y)) = trimLB (mergeLB y) := by
+  unfold trimLB mergeLB
+  simp only [mergeGo, hr, ↓reduceIte]
+  rw [dropLead_mergeGo y r hr]
+
+def pendOK : Option Token → Prop
+  | none => True
+  | some p => isLBt p = true
+
+/-- M2: a line break behind everything does not matter -/
+theorem dropTrail_mergeGo_snoc (l : Token) (hl : isLBt l = true) : ∀ (y : List Token) (pend : Option Token), pendOK pend →
+    dropTrailLB (mergeGo pend (y ++ [l])) = dropTrailLB (mergeGo pend y)
+  | [], none, _ => by simp [mergeGo, hl, dropTrailLB]
+  | [], some p, hp => by
+    have : isLBt (p.joined l) = true := by rw [joined_isLBt]; exact hp
+    simp [mergeGo, hl, dropTrailLB, this, show isLBt p = true from hp]
+  | t :: ts, none, _ => by
+    cases h : isLBt t
+    · simp only [List.cons_append, mergeGo, h, Bool.false_eq_true, ↓reduceIte]
+      rw [dropTrailLB_cons_of_not h, dropTrailLB_cons_of_not h, dropTrail_mergeGo_snoc l hl ts none trivial]
+    · simp only [List.cons_append, mergeGo, h, ↓reduceIte]
+      exact dropTrail_mergeGo_snoc l hl ts (some t) h
+  | t :: ts, some p, hp => by
+    cases h : isLBt t
+    · simp only [List.cons_append, mergeGo, h, Bool.false_eq_true, ↓reduceIte]
+      simp only [dropTrailLB]
+      rw [dropTrailLB_cons_of_not h, dropTrailLB_cons_of_not h, dropTrail_mergeGo_snoc l hl ts none trivial]
+    · simp only [List.cons_append, mergeGo, h, ↓reduceIte]
+      exact dropTrail_mergeGo_snoc l hl ts (some (p.joined t)) (by show isLBt (p.joined t) = true; rw [joined_isLBt]; exact hp)
+
+theorem norm_trail (l : Token) (hl : isLBt l = true) (y : List Token) : trimLB (mergeLB (y ++ [l])) = trimLB (mergeLB y) := by
+  unfold trimLB mergeLB
+  rw [← trim_comm, ← trim_comm, dropTrail_mergeGo_snoc l hl y none trivial]
+
+/-- M3: two adjacent line breaks may be joined beforehand -/
+theorem mergeGo_join (a b : Token) (ha : isLBt a = true) (hb : isLBt b = true) (q : List Token) :
+    ∀ (p : List Token) (pend : Option Token), mergeGo pend (p ++ a :: b :: q) = mergeGo pend (p ++ a.joined b :: q)
+  | [], none => by simp [mergeGo, ha, hb, joined_isLBt]
+  | [], some x => by simp [mergeGo, ha, hb, joined_isLBt, joined_assoc]
+  | t :: ts, none => by
+    cases h : isLBt t <;> simp [mergeGo, h, mergeGo_join a b ha hb q ts]
+  | t :: ts, some x => by
+    cases h : isLBt t <;> simp [mergeGo, h, mergeGo_join a b ha hb q ts]
+
+theorem significant_append (a b : List Token) : significant (a ++ b) = significant a ++ significant b := by
+  simp [significant]
+
+theorem significant_cons_drop {t : Token} (h : t.type = T.comment ∨ t.type = T.whiteSpace) (ts : List Token) :
+    significant (t :: ts) = significant ts := by
+  cases h with
+  | inl h => simp [significant, h]
+  | inr h => simp [significant, h, T.whiteSpace, T.comment]
+
+theorem significant_cons_keep {t : Token} (h : isLBt t = true) (ts : List Token) :
+    significant (t :: ts) = t :: significant ts := by
+  have : t.type = T.lineBreak := by simpa [isLBt] using h
+  simp [significant, this, T.lineBreak, T.comment, T.whiteSpace]
+
+/-- An unconditional pass over comments (or over white space) never changes `norm` of the list it works on — for every
+    token list and every zipper state. -/
+theorem pass_norm (ty : Nat) (hty : ty = T.comment ∨ ty = T.whiteSpace) : ∀ (rest left : List Token),
+    norm (filterPass ty .all left rest) = norm (left.reverse ++ rest)
+  | [], left => by simp [filterPass]
+  | cur :: right, left => by
+    unfold filterPass
+    by_cases hc : cur.type = ty
+    · have hdrop : cur.type = T.comment ∨ cur.type = T.whiteSpace := by rw [hc]; exact hty
+      simp only [hc, ne_eq, not_true_eq_false, decide_false, toEmpty, Bool.not_true, Bool.or_self, Bool.false_eq_true, ↓reduceIte]
+      have hsig : ∀ (a b : List Token), significant (a ++ cur :: b) = significant (a ++ b) := by
+        intro a b; rw [significant_append, significant_cons_drop hdrop, ← significant_append]
+      cases left with
+      | nil =>
+        cases right with
+        | nil => simp [norm, significant_cons_drop hdrop]
+        | cons r rs =>
+          simp only [isLB_some]
+          by_cases hr : isLBt r = true
+          rotate_left
+          · simp only [hr, Bool.false_eq_true, ↓reduceIte]
+            rw [pass_norm ty hty (r :: rs) []]
+            simp only [List.reverse_nil, List.nil_append]
+            unfold norm; rw [significant_cons_drop hdrop]
+          · simp only [hr, ↓reduceIte]
+            rw [pass_norm ty hty rs []]
+            simp only [List.reverse_nil, List.nil_append]
+            unfold norm
+            rw [significant_cons_drop hdrop, significant_cons_keep hr, norm_lead r hr]
+      | cons l ls =>
+        cases right with
+        | nil =>
+          simp only [isLB_some]
+          by_cases hl : isLBt l = true
+          rotate_left
+          · simp only [hl, Bool.false_eq_true, ↓reduceIte]
+            unfold norm; rw [hsig]; simp
+          · simp only [hl, ↓reduceIte]
+            unfold norm
+            rw [hsig]
+            simp only [List.reverse_cons, List.append_nil, significant_append]
+            rw [show significant [l] = [l] from by rw [significant_cons_keep hl]; rfl, norm_trail l hl]
+        | cons r rs =>
+          simp only [isLB_some]
+          by_cases hlr : (isLBt l && isLBt r) = true
+          · simp only [hlr, ↓reduceIte]
+            have hl : isLBt l = true := by simp at hlr; exact hlr.1
+            have hr : isLBt r = true := by simp at hlr; exact hlr.2
+            rw [pass_norm ty hty rs (l.joined r :: ls)]
+            unfold norm
+            rw [hsig]
+            simp only [List.reverse_cons, List.append_assoc, List.singleton_append, significant_append]
+            rw [significant_cons_keep hl, significant_cons_keep hr,
+              significant_cons_keep (show isLBt (l.joined r) = true from by rw [joined_isLBt]; exact hl)]
+            unfold mergeLB
+            rw [mergeGo_join l r hl hr]
+          · simp only [hlr, Bool.false_eq_true, ↓reduceIte]
+            rw [pass_norm ty hty (r :: rs) (l :: ls)]
+            unfold norm; rw [hsig]
+    · simp only [hc, ne_eq, not_false_eq_true, decide_true, Bool.true_or, ↓reduceIte]
+      rw [pass_norm ty hty right (cur :: left)]
+      simp
+
+/-! ### shape invariants of the passes -/
+
+set_option linter.unusedSimpArgs false
+
+def headLB : List Token → Bool
+  | [] => false
+  | t :: _ => isLBt t
+
+/-- no two adjacent line break tokens -/
+def noAdj : List Token → Bool
+  | [] => true
+  | t :: ts => !(isLBt t && headLB ts) && noAdj ts
+
+theorem headLB_nil : headLB [] = false := rfl
+theorem headLB_cons (t : Token) (ts : List Token) : headLB (t :: ts) = isLBt t := rfl
+theorem noAdj_nil : noAdj [] = true := rfl
+theorem noAdj_cons (t : Token) (ts : List Token) : noAdj (t :: ts) = (!(isLBt t && headLB ts) && noAdj ts) := rfl
+
+theorem noAdj_reverseAux : ∀ (l r : List Token),
+    noAdj (List.reverseAux l r) = (noAdj l && noAdj r && !(headLB l && headLB r))
+  | [], r => by simp [List.reverseAux, noAdj_nil, headLB_nil]
+  | t :: ts, r => by
+    rw [List.reverseAux, noAdj_reverseAux ts (t :: r)]
+    have e1 : headLB (t :: r) = isLBt t := rfl
+    have e2 : noAdj (t :: r) = (!(isLBt t && headLB r) && noAdj r) := rfl
+    have e3 : noAdj (t :: ts) = (!(isLBt t && headLB ts) && noAdj ts) := rfl
+    have e4 : headLB (t :: ts) = isLBt t := rfl
+    rw [e1, e2, e3, e4]
+    generalize isLBt t = a; generalize headLB ts = b; generalize headLB r = c
+    generalize noAdj ts = x; generalize noAdj r = y
+    cases a <;> cases b <;> cases c <;> cases x <;> cases y <;> rfl
+
+theorem noAdj_reverse (l : List Token) (h : noAdj l = true) : noAdj l.reverse = true := by
+  show noAdj (List.reverseAux l []) = true
+  rw [noAdj_reverseAux l []]
+  simp [h, noAdj_nil, headLB_nil]
+
+/-- the zipper invariant: no adjacent line breaks on either side nor across the cursor -/
+def zipOK (l r : List Token) : Bool := noAdj l && noAdj r && !(headLB l && headLB r)
+
+/-- an unconditional pass over a type other than LineBreak keeps "no two adjacent line breaks" -/
+theorem pass_noAdj (ty : Nat) (hty : ty ≠ T.lineBreak) : ∀ (rest left : List Token), zipOK left rest = true →
+    noAdj (filterPass ty .all left rest) = true
+  | [], left, h => by
+    simp only [zipOK, Bool.and_eq_true] at h
+    simp only [filterPass]; exact noAdj_reverse left h.1.1
+  | cur :: right, left, h => by
+    unfold filterPass
+    by_cases hc : cur.type = ty
+    · have hcur : isLBt cur = false := by simp [isLBt, hc, hty]
+      simp only [hc, ne_eq, not_true_eq_false, decide_false, toEmpty, Bool.not_true, Bool.or_self, Bool.false_eq_true, ↓reduceIte]
+      simp only [zipOK, noAdj_cons, noAdj_nil, headLB_cons, headLB_nil, hcur, Bool.false_and, Bool.not_false, Bool.true_and, Bool.and_false, Bool.and_true, Bool.and_eq_true] at h
+      cases left with
+      | nil =>
+        cases right with
+        | nil => simp [noAdj_nil]
+        | cons r rs =>
+          simp only [isLB_some]
+          simp only [noAdj_cons, noAdj_nil, Bool.and_eq_true] at h
+          by_cases hr : isLBt r = true
+          · simp only [hr, ↓reduceIte]
+            exact pass_noAdj ty hty rs [] (by simp [zipOK, noAdj_cons, noAdj_nil, headLB_cons, headLB_nil, h.2.2])
+          · simp only [hr, Bool.false_eq_true, ↓reduceIte]
+            exact pass_noAdj ty hty (r :: rs) [] (by simp [zipOK, noAdj_cons, noAdj_nil, headLB_cons, headLB_nil, h.2.1, h.2.2])
+      | cons l ls =>
+        simp only [noAdj_cons, noAdj_nil, Bool.and_eq_true] at h
+        cases right with
+        | nil =>
+          simp only [isLB_some]
+          by_cases hl : isLBt l = true
+          · simp only [hl, ↓reduceIte]; exact noAdj_reverse ls h.1.2
+          · simp only [hl, Bool.false_eq_true, ↓reduceIte]
+            exact noAdj_reverse (l :: ls) (by simp [noAdj_cons, h.1.1, h.1.2])
+        | cons r rs =>
+          simp only [isLB_some]
+          simp only [noAdj_cons, noAdj_nil, Bool.and_eq_true] at h
+          by_cases hlr : (isLBt l && isLBt r) = true
+          · simp only [hlr, ↓reduceIte]
+            have hl : isLBt l = true := by simp at hlr; exact hlr.1
+            have hr : isLBt r = true := by simp at hlr; exact hlr.2
+            apply pass_noAdj ty hty rs (l.joined r :: ls)
+            have h1 := h.1.1; have h2 := h.2.1
+            simp only [hl, hr, Bool.true_and, Bool.not_eq_true'] at h1 h2
+            simp [zipOK, noAdj_cons, noAdj_nil, headLB_cons, headLB_nil, joined_isLBt, hl, h1, h2, h.1.2, h.2.2]
+          · simp only [hlr, Bool.false_eq_true, ↓reduceIte]
+            apply pass_noAdj ty hty (r :: rs) (l :: ls)
+            simp only [Bool.not_eq_true] at hlr
+            simp [zipOK, noAdj_cons, noAdj_nil, headLB_cons, headLB_nil, h.1.1, h.1.2, h.2.1, h.2.2, hlr]
+    · simp only [hc, ne_eq, not_false_eq_true, decide_true, Bool.true_or, ↓reduceIte]
+      apply pass_noAdj ty hty right (cur :: left)
+      simp only [zipOK, noAdj_cons, noAdj_nil, headLB_cons, headLB_nil, Bool.and_eq_true] at h ⊢
+      obtain ⟨⟨h1, h2, h3⟩, h4⟩ := h
+      refine ⟨⟨⟨?_, h1⟩, h3⟩, h2⟩
+      simpa [Bool.and_comm] using h4
+
+/-- every token a pass returns satisfies `P`, when `P` holds for all input tokens and is closed under `joined` -/
+theorem pass_all (ty : Nat) (f : Filter) (P : Token → Prop)
+    (hj : ∀ a b, isLBt a = true → isLBt b = true → P a → P b → P (a.joined b)) :
+    ∀ (rest left : List Token), (∀ t ∈ left, P t) → (∀ t ∈ rest, P t) → ∀ t ∈ filterPass ty f left rest, P t
+  | [], left, hl, _ => by simpa [filterPass] using hl
+  | cur :: right, left, hl, hr => by
+    have hr' : ∀ t ∈ right, P t := fun t ht => hr t (by simp [ht])
+    have hcur : P cur := hr cur (by simp)
+    unfold filterPass
+    split
+    · apply pass_all ty f P hj right (cur :: left) _ hr'
+      intro t ht
+      simp only [List.mem_cons] at ht
+      cases ht with
+      | inl h => rw [h]; exact hcur
+      | inr h => exact hl t h
+    · cases left with
+      | nil =>
+        cases right with
+        | nil => simp
+        | cons r rs =>
+          have hrs : ∀ t ∈ rs, P t := fun t ht => hr' t (by simp [ht])
+          simp only []
+          split
+          · exact pass_all ty f P hj rs [] hl hrs
+          · exact pass_all ty f P hj (r :: rs) [] hl hr'
+      | cons l ls =>
+        have hls : ∀ t ∈ ls, P t := fun t ht => hl t (by simp [ht])
+        cases right with
+        | nil =>
+          simp only []
+          split
+          · intro t ht; exact hls t (List.mem_reverse.mp ht)
+          · intro t ht; exact hl t (List.mem_reverse.mp ht)
+        | cons r rs =>
+          have hrs : ∀ t ∈ rs, P t := fun t ht => hr' t (by simp [ht])
+          simp only []
+          split
+          · rename_i hlr
+            simp only [isLB_some, Bool.and_eq_true] at hlr
+            apply pass_all ty f P hj rs (l.joined r :: ls) _ hrs
+            intro t ht
+            simp only [List.mem_cons] at ht
+            cases ht with
+            | inl h => rw [h]; exact hj l r hlr.1 hlr.2 (hl l (by simp)) (hr' r (by simp))
+            | inr h => exact hls t h
+          · exact pass_all ty f P hj (r :: rs) (l :: ls) hl hr'
+
+/-- an unconditional pass over a type other than LineBreak leaves no token of that type -/
+theorem pass_removes (ty : Nat) (hty : ty ≠ T.lineBreak) : ∀ (rest left : List Token), (∀ t ∈ left, t.type ≠ ty) →
+    ∀ t ∈ filterPass ty .all left rest, t.type ≠ ty
+  | [], left, hl => by simpa [filterPass] using hl
+  | cur :: right, left, hl => by
+    unfold filterPass
+    by_cases hc : cur.type = ty
+    · simp only [hc, ne_eq, not_true_eq_false, decide_false, toEmpty, Bool.not_true, Bool.or_self, Bool.false_eq_true, ↓reduceIte]
+      cases left with
+      | nil =>
+        cases right with
+        | nil => simp
+        | cons r rs =>
+          simp only []
+          split
+          · exact pass_removes ty hty rs [] hl
+          · exact pass_removes ty hty (r :: rs) [] hl
+      | cons l ls =>
+        have hls : ∀ t ∈ ls, t.type ≠ ty := fun t ht => hl t (by simp [ht])
+        cases right with
+        | nil =>
+          simp only []
+          split
+          · intro t ht; exact hls t (List.mem_reverse.mp ht)
+          · intro t ht; exact hl t (List.mem_reverse.mp ht)
+        | cons r rs =>
+          simp only []
+          split
+          · rename_i hlr
+            apply pass_removes ty hty rs (l.joined r :: ls)
+            intro t ht
+            simp only [List.mem_cons] at ht
+            cases ht with
+            | inl h => rw [h, joined_type]; exact hl l (by simp)
+            | inr h => exact hls t h
+          · exact pass_removes ty hty (r :: rs) (l :: ls) hl
+    · simp only [hc, ne_eq, not_false_eq_true, decide_true, Bool.true_or, ↓reduceIte]
+      apply pass_removes ty hty right (cur :: left)
+      intro t ht
+      simp only [List.mem_cons] at ht
+      cases ht with
+      | inl h => rw [h]; exact hc
+      | inr h => exact hl t h
+
+/-! ### the regex pass and the first/last pass on well-shaped lists -/
+
+theorem starLoop_none (m : Char → Bool) (k : Str → Option Str) (a : Str) (hk : ∀ s : Str, (∀ c ∈ s, c ∈ a) → k s = none) :
+    ∀ s : Str, (∀ c ∈ s, c ∈ a) → starLoop m k s = none
+  | [], hs => by simp [starLoop, hk [] hs]
+  | c :: cs, hs => by
+    have hcs : ∀ x ∈ cs, x ∈ a := fun x hx => hs x (by simp [hx])
+    simp only [starLoop, starLoop_none m k a hk cs hcs, hk (c :: cs) hs]
+    split <;> rfl
+
+/-- a pattern with a mandatory item that matches no character of the alphabet `a` matches nowhere in strings over `a` -/
+theorem matchItems_none (a : Str) : ∀ (items : List RItem), (∃ it ∈ items, it.q = .one ∧ ∀ c ∈ a, it.matches c = false) →
+    ∀ s : Str, (∀ c ∈ s, c ∈ a) → matchItems items s = none
+  | [], h, _, _ => by obtain ⟨it, hit, _⟩ := h; simp at hit
+  | it0 :: rest, h, s, hs => by
+    obtain ⟨it, hit, hq, hblind⟩ := h
+    simp only [List.mem_cons] at hit
+    cases hit with
+    | inl h0 =>
+      subst h0
+      unfold matchItems
+      rw [hq]
+      cases s with
+      | nil => rfl
+      | cons c cs => simp [hblind c (hs c (by simp))]
+    | inr hin =>
+      have ih := matchItems_none a rest ⟨it, hin, hq, hblind⟩
+      unfold matchItems
+      cases hq0 : it0.q with
+      | one =>
+        cases s with
+        | nil => rfl
+        | cons c cs =>
+          simp only []
+          split
+          · exact ih cs (fun x hx => hs x (by simp [hx]))
+          · rfl
+      | opt =>
+        cases s with
+        | nil => exact ih [] hs
+        | cons c cs =>
+          simp only []
+          rw [ih cs (fun x hx => hs x (by simp [hx])), ih (c :: cs) hs]
+          split <;> rfl
+      | star => exact starLoop_none _ _ a ih s hs
+
+theorem removeMatches_id (items : List RItem) (a : Str) (hm : ∀ s : Str, (∀ c ∈ s, c ∈ a) → matchItems items s = none) :
+    ∀ (fuel : Nat) (s : Str), (∀ c ∈ s, c ∈ a) → removeMatches items fuel s = s
+  | _, [], _ => by simp [removeMatches]
+  | 0, c :: cs, _ => by simp [removeMatches]
+  | f + 1, c :: cs, hs => by
+    simp only [removeMatches, hm (c :: cs) hs]
+    rw [removeMatches_id items a hm f cs (fun x hx => hs x (by simp [hx]))]
+
+/-- a pass whose filter empties none of its tokens is the identity -/
+theorem filterPass_noop (ty : Nat) (f : Filter) : ∀ (rest left : List Token),
+    (∀ t ∈ rest, t.type = ty → ∀ b1 b2, toEmpty f t b1 b2 = false) → filterPass ty f left rest = left.reverse ++ rest
+  | [], left, _ => by simp [filterPass]
+  | cur :: right, left, h => by
+    have hr : ∀ t ∈ right, t.type = ty → ∀ b1 b2, toEmpty f t b1 b2 = false := fun t ht => h t (by simp [ht])
+    unfold filterPass
+    by_cases hc : cur.type = ty
+    · simp only [hc, ne_eq, not_true_eq_false, decide_false, h cur (by simp) hc, Bool.not_false, Bool.or_true, ↓reduceIte]
+      rw [filterPass_noop ty f right (cur :: left) hr]; simp
+    · simp only [hc, ne_eq, not_false_eq_true, decide_true, Bool.true_or, ↓reduceIte]
+      rw [filterPass_noop ty f right (cur :: left) hr]; simp
+
+/-- the raw-token condition the regex pass needs: a line break token is non-empty white space -/
+def lbStrOK (d : TokenDef) (t : Token) : Prop := isLBt t = true → t.string ≠ [] ∧ ∀ c ∈ t.string, c ∈ d.whiteSpace
+
+theorem lbStrOK_joined (d : TokenDef) (a b : Token) (ha : isLBt a = true) (hb : isLBt b = true)
+    (pa : lbStrOK d a) (pb : lbStrOK d b) : lbStrOK d (a.joined b) := by
+  intro _
+  obtain ⟨a1, a2⟩ := pa ha
+  obtain ⟨_, b2⟩ := pb hb
+  refine ⟨by simp [Token.joined, a1], ?_⟩
+  intro c hc
+  simp only [Token.joined, List.mem_append] at hc
+  cases hc with
+  | inl h => exact a2 c h
+  | inr h => exact b2 c h
+
+/-- side condition on the definition: every regex post filter has a mandatory item that matches no white space character
+    (the shipped `[ \t\f]*\[ \t\f]*\r?\n` needs a literal `[`), so it can never empty a lexer-made line break -/
+def regexBlind (d : TokenDef) : Bool :=
+  d.postFilters.all (fun pf => match pf.2 with
+    | .regex items => items.any (fun it => it.q = .one && d.whiteSpace.all (fun c => !it.matches c))
+    | _ => true)
+
+theorem toEmpty_regex_false {d : TokenDef} {items : List RItem}
+    (hb : items.any (fun it => it.q = .one && d.whiteSpace.all (fun c => !it.matches c)) = true)
+    {t : Token} (ht : isLBt t = true) (hok : lbStrOK d t) (b1 b2 : Bool) : toEmpty (.regex items) t b1 b2 = false := by
+  obtain ⟨h1, h2⟩ := hok ht
+  simp only [List.any_eq_true, Bool.and_eq_true, decide_eq_true_eq, List.all_eq_true, Bool.not_eq_true'] at hb
+  obtain ⟨it, hit, hq, hbl⟩ := hb
+  have hm := matchItems_none d.whiteSpace items ⟨it, hit, hq, hbl⟩
+  simp only [toEmpty]
+  rw [removeMatches_id items d.whiteSpace hm _ _ h2]
+  cases hs : t.string with
+  | nil => exact absurd hs h1
+  | cons c cs => rfl
+
+/-- on a list without adjacent line breaks (and past its first element) the first/last pass only drops a trailing line break -/
+theorem pass4_tail : ∀ (rest left : List Token), left ≠ [] → zipOK left rest = true →
+    filterPass T.lineBreak .beginOrEnd left rest = left.reverse ++ dropTrailLB rest
+  | [], left, _, _ => by simp [filterPass, dropTrailLB]
+  | [cur], left, hne, hz => by
+    unfold filterPass
+    cases left with
+    | nil => exact absurd rfl hne
+    | cons l ls =>
+      by_cases hc : isLBt cur = true
+      · have hct : cur.type = T.lineBreak := by simpa [isLBt] using hc
+        have hl : isLBt l = false := by
+          simp only [zipOK, noAdj_cons, noAdj_nil, headLB_cons, headLB_nil, hc, Bool.and_eq_true] at hz
+          simpa using hz.2
+        simp [hct, toEmpty, isLB_some, hl, dropTrailLB, hc]
+      · have hct : cur.type ≠ T.lineBreak := by simpa [isLBt] using hc
+        simp [hct, filterPass, dropTrailLB, hc]
+  | cur :: u :: r, left, hne, hz => by
+    unfold filterPass
+    cases left with
+    | nil => exact absurd rfl hne
+    | cons l ls =>
+      have hstep : (decide (cur.type ≠ T.lineBreak) || !toEmpty .beginOrEnd cur (l :: ls).isEmpty (u :: r).isEmpty) = true := by
+        simp [toEmpty]
+      simp only [hstep, ↓reduceIte]
+      rw [pass4_tail (u :: r) (cur :: l :: ls) (by simp)]
+      · simp [dropTrailLB]
+      · simp only [zipOK, noAdj_cons, headLB_cons, Bool.and_eq_true] at hz ⊢
+        obtain ⟨⟨⟨h1, h2⟩, h3, h4⟩, h5⟩ := hz
+        refine ⟨⟨⟨?_, h1, h2⟩, h4⟩, h3⟩
+        simpa [Bool.and_comm] using h5
+
+/-- … and from the start it is exactly `trimLB` -/
+theorem pass4_trim : ∀ (x : List Token), noAdj x = true → filterPass T.lineBreak .beginOrEnd [] x = trimLB x
+  | [], _ => by simp [filterPass, trimLB, dropLeadLB, dropTrailLB]
+  | [t], _ => by
+    unfold filterPass
+    by_cases hc : isLBt t = true
+    · have hct : t.type = T.lineBreak := by simpa [isLBt] using hc
+      simp [hct, toEmpty, trimLB, dropLeadLB, dropTrailLB, hc]
+    · have hct : t.type ≠ T.lineBreak := by simpa [isLBt] using hc
+      simp [hct, filterPass, trimLB, dropLeadLB, dropTrailLB, hc]
+  | t :: u :: r, h => by
+    simp only [noAdj_cons, headLB_cons, Bool.and_eq_true] at h
+    obtain ⟨h1, h2, h3⟩ := h
+    unfold filterPass
+    by_cases hc : isLBt t = true
+    · have hct : t.type = T.lineBreak := by simpa [isLBt] using hc
+      have hu : isLBt u = false := by simpa [hc] using h1
+      have hut : u.type ≠ T.lineBreak := by simpa [isLBt] using hu
+      simp only [hct, ne_eq, not_true_eq_false, decide_false, toEmpty, List.isEmpty_nil, Bool.true_or, Bool.not_true,
+        Bool.or_self, Bool.false_eq_true, ↓reduceIte, isLB_some, hu]
+      unfold filterPass
+      simp only [hut, ne_eq, not_false_eq_true, decide_true, Bool.true_or, ↓reduceIte]
+      rw [pass4_tail r [u] (by simp) (by simp [zipOK, noAdj_cons, noAdj_nil, headLB_cons, headLB_nil, h2, h3])]
+      simp [trimLB, dropLeadLB, hc, dropTrailLB_cons_of_not hu]
+    · have hct : t.type ≠ T.lineBreak := by simpa [isLBt] using hc
+      have hc' : isLBt t = false := by simpa using hc
+      simp only [hct, ne_eq, not_false_eq_true, decide_true, Bool.true_or, ↓reduceIte]
+      rw [pass4_tail (u :: r) [t] (by simp) (by simp [zipOK, noAdj_cons, noAdj_nil, headLB_cons, headLB_nil, hc', h2, h3])]
+      simp [trimLB, dropLeadLB, hc', dropTrailLB]
+
+theorem significant_id : ∀ (x : List Token), (∀ t ∈ x, t.type ≠ T.comment) → (∀ t ∈ x, t.type ≠ T.whiteSpace) → significant x = x := by
+  intro x h1 h2
+  unfold significant
+  apply List.filter_eq_self.mpr
+  intro t ht
+  simp [h1 t ht, h2 t ht]
+
+theorem mergeGo_id : ∀ (x : List Token), noAdj x = true →
+    mergeGo none x = x ∧ ∀ p, isLBt p = true → headLB x = false → mergeGo (some p) x = p :: x
+  | [], _ => by simp [mergeGo]
+  | t :: ts, h => by
+    simp only [noAdj_cons, Bool.and_eq_true] at h
+    obtain ⟨h1, h2⟩ := h
+    obtain ⟨i1, i2⟩ := mergeGo_id ts h2
+    constructor
+    · by_cases ht : isLBt t = true
+      · have : headLB ts = false := by simpa [ht] using h1
+        simp [mergeGo, ht, i2 t ht this]
+      · simp [mergeGo, ht, i1]
+    · intro p hp hh
+      have ht : isLBt t = false := by simpa [headLB_cons] using hh
+      simp [mergeGo, ht, i1]
+
+/-- the side conditions on a raw token list under which `post_filter` has its closed form: no two adjacent line break
+    tokens, every line break token is non-empty white space (both hold for what the lexer produces) -/
+def filterable (d : TokenDef) (ts : List Token) : Prop := noAdj ts = true ∧ ∀ t ∈ ts, lbStrOK d t
+
+/-- `post_filter` in closed form: the significant tokens, line breaks separated only by comments merged, no line break
+    first or last. -/
+theorem postFilter_norm {d : TokenDef} (hd : ShippedFilters d) (hb : regexBlind d = true) {ts : List Token}
+    (h : filterable d ts) : postFilter d ts = norm ts := by
+  obtain ⟨r, hr⟩ := hd
+  obtain ⟨hadj, hok⟩ := h
+  have hbr : r.any (fun it => it.q = .one && d.whiteSpace.all (fun c => !it.matches c)) = true := by
+    simp only [regexBlind, hr, List.all_cons, List.all_nil, Bool.and_true, Bool.true_and] at hb
+    exact hb
+  unfold postFilter
+  rw [hr]
+  simp only [List.foldl]
+  -- pass 1 and pass 2
+  let x1 := filterPass T.comment .all [] ts
+  let x2 := filterPass T.whiteSpace .all [] x1
+  have n1 : norm x1 = norm ts := by simpa using pass_norm T.comment (Or.inl rfl) ts []
+  have n2 : norm x2 = norm x1 := by simpa using pass_norm T.whiteSpace (Or.inr rfl) x1 []
+  have a1 : noAdj x1 = true := pass_noAdj T.comment (by decide) ts [] (by simp [zipOK, hadj, noAdj_nil, headLB_nil])
+  have a2 : noAdj x2 = true := pass_noAdj T.whiteSpace (by decide) x1 [] (by simp [zipOK, a1, noAdj_nil, headLB_nil])
+  have k1 : ∀ t ∈ x1, lbStrOK d t := pass_all _ _ (lbStrOK d) (lbStrOK_joined d) ts [] (by simp) hok
+  have k2 : ∀ t ∈ x2, lbStrOK d t := pass_all _ _ (lbStrOK d) (lbStrOK_joined d) x1 [] (by simp) k1
+  have c1 : ∀ t ∈ x1, t.type ≠ T.comment := pass_removes T.comment (by decide) ts [] (by simp)
+  have c2 : ∀ t ∈ x2, t.type ≠ T.comment :=
+    pass_all _ _ (fun t => t.type ≠ T.comment) (fun a b _ _ ha _ => by rw [joined_type]; exact ha) x1 [] (by simp) c1
+  have w2 : ∀ t ∈ x2, t.type ≠ T.whiteSpace := pass_removes T.whiteSpace (by decide) x1 [] (by simp)
+  -- pass 3 is the identity, pass 4 trims
+  have p3 : filterPass T.lineBreak (.regex r) [] x2 = x2 := by
+    rw [filterPass_noop]
+    · simp
+    · intro t ht hty b1 b2
+      exact toEmpty_regex_false hbr (by simpa [isLBt] using hty) (k2 t ht) b1 b2
+  show filterPass T.lineBreak .beginOrEnd [] (filterPass T.lineBreak (.regex r) [] x2) = norm ts
+  rw [p3, pass4_trim x2 a2, ← n1, ← n2]
+  unfold norm mergeLB
+  rw [significant_id x2 c2 w2, (mergeGo_id x2 a2).1]
+
+/-! ### line breaks up to their last-line width -/
+
+/-- same token up to source map, where a line break only has to keep its last-line width -/
+abbrev LBsame : Token → Token → Prop := Rescaled 1 1
+
+theorem LBsame.refl (t : Token) : LBsame t t := by
+  refine ⟨rfl, ?_⟩
+  split
+  · exact ⟨lastLineLen t.string, by simp, by simp⟩
+  · rfl
+
+theorem LBsame.lb {t t' : Token} (h1 : t.type = T.lineBreak) (h2 : t'.type = T.lineBreak)
+    (w : lastLineLen t.string = lastLineLen t'.string) : LBsame t t' :=
+  Rescaled.lb (lastLineLen t.string) h1 h2 (by simp) (by simp [w])
+
+theorem LBsame.width {t t' : Token} (h : LBsame t t') (hl : isLBt t = true) : lastLineLen t.string = lastLineLen t'.string := by
+  have hty : t.type = T.lineBreak := by simpa [isLBt] using hl
+  obtain ⟨_, h2⟩ := h
+  simp only [hty, ↓reduceIte] at h2
+  obtain ⟨m, m1, m2⟩ := h2
+  omega
+
+theorem LBsame.lbt_eq {t t' : Token} (h : LBsame t t') : isLBt t = isLBt t' := by
+  simp [isLBt, h.1]
+
+theorem AllRel.refl {α : Type} {R : α → α → Prop} (hr : ∀ a, R a a) : ∀ l : List α, AllRel R l l
+  | [] => .nil
+  | a :: as => .cons (hr a) (AllRel.refl hr as)
+
+theorem AllRel.append {α : Type} {R : α → α → Prop} {a a' b b' : List α} (h1 : AllRel R a a') (h2 : AllRel R b b') :
+    AllRel R (a ++ b) (a' ++ b') := by
+  induction h1 with
+  | nil => exact h2
+  | cons h _ ih => exact .cons h ih
+
+theorem splitOn_ne_nil (d : Char) : ∀ s : Str, Str.splitOn d s ≠ []
+  | [] => by simp [Str.splitOn]
+  | c :: cs => by
+    simp only [Str.splitOn]
+    split
+    · simp
+    · split <;> simp
+
+theorem splitOn_two (d : Char) : ∀ s : Str, d ∈ s → ∃ p q r, Str.splitOn d s = p :: q :: r
+  | [], h => by simp at h
+  | c :: cs, h => by
+    simp only [Str.splitOn]
+    by_cases hc : c = d
+    · simp only [hc, ↓reduceIte]
+      cases hs : Str.splitOn d cs with
+      | nil => exact absurd hs (splitOn_ne_nil d cs)
+      | cons q r => exact ⟨[], q, r, rfl⟩
+    · simp only [hc, ↓reduceIte]
+      have hin : d ∈ cs := by
+        simp only [List.mem_cons] at h
+        cases h with
+        | inl h => exact absurd h.symm hc
+        | inr h => exact h
+      obtain ⟨p, q, r, hpqr⟩ := splitOn_two d cs hin
+      rw [hpqr]
+      exact ⟨c :: p, q, r, rfl⟩
+
+def lastLine (s : Str) : Str := (Str.splitOn '\n' s).getLastD []
+
+theorem lastLine_cons (c : Char) (s : Str) (h : '\n' ∈ s) : lastLine (c :: s) = lastLine s := by
+  obtain ⟨p, q, r, hpqr⟩ := splitOn_two '\n' s h
+  unfold lastLine
+  simp only [Str.splitOn, hpqr]
+  split <;> simp [List.getLastD]
+
+theorem lastLine_append (x y : Str) (h : '\n' ∈ y) : lastLine (x ++ y) = lastLine y := by
+  induction x with
+  | nil => rfl
+  | cons c cs ih =>
+    rw [List.cons_append, lastLine_cons c _ (by simp [h]), ih]
+
+theorem lastLineLen_append (x y : Str) (h : '\n' ∈ y) : lastLineLen (x ++ y) = lastLineLen y := by
+  have := lastLine_append x y h
+  unfold lastLine at this
+  unfold lastLineLen
+  rw [this]
+
+/-- a line break token contains a newline (true of every lexer-made one) -/
+def lbNL (t : Token) : Prop := isLBt t = true → '\n' ∈ t.string
+
+theorem LBsame.joined {a a' b b' : Token} (ha : LBsame a a') (hb : LBsame b b') (hla : isLBt a = true) (hlb : isLBt b = true)
+    (nb : lbNL b) (nb' : lbNL b') : LBsame (a.joined b) (a'.joined b') := by
+  have ta : a.type = T.lineBreak := by simpa [isLBt] using hla
+  have ta' : a'.type = T.lineBreak := by rw [← ha.1]; exact ta
+  have hlb' : isLBt b' = true := by rw [← hb.lbt_eq]; exact hlb
+  apply LBsame.lb (by rw [joined_type]; exact ta) (by rw [joined_type]; exact ta')
+  simp only [Token.joined]
+  rw [lastLineLen_append _ _ (nb hlb), lastLineLen_append _ _ (nb' hlb')]
+  exact hb.width hlb
+
+theorem lbNL_joined (a b : Token) (hb : isLBt b = true) (nb : lbNL b) : lbNL (a.joined b) := by
+  intro _; simp [Token.joined, nb hb]
+
+theorem significant_rel {ts ts' : List Token} (h : AllRel LBsame ts ts') : AllRel LBsame (significant ts) (significant ts') := by
+  induction h with
+  | nil => exact .nil
+  | @cons a b as bs hab _ ih =>
+    unfold significant at ih ⊢
+    simp only [List.filter_cons, ← hab.1]
+    split
+    · exact .cons hab ih
+    · exact ih
+
+def pendRel : Option Token → Option Token → Prop
+  | none, none => True
+  | some p, some p' => LBsame p p' ∧ isLBt p = true ∧ lbNL p ∧ lbNL p'
+  | _, _ => False
+
+theorem mergeGo_rel {ts ts' : List Token} (h : AllRel LBsame ts ts') (n : ∀ t ∈ ts, lbNL t) (n' : ∀ t ∈ ts', lbNL t) :
+    ∀ (pend pend' : Option Token), pendRel pend pend' → AllRel LBsame (mergeGo pend ts) (mergeGo pend' ts') := by
+  induction h with
+  | nil =>
+    intro pend pend' hp
+    cases pend <;> cases pend' <;> simp only [pendRel] at hp
+    · exact .nil
+    · exact .cons hp.1 .nil
+  | @cons a b as bs hab _ ih =>
+    have na : lbNL a := n a (by simp)
+    have nb : lbNL b := n' b (by simp)
+    have ih' := ih (fun t ht => n t (by simp [ht])) (fun t ht => n' t (by simp [ht]))
+    intro pend pend' hp
+    have hty := hab.lbt_eq
+    cases pend <;> cases pend' <;> simp only [pendRel] at hp
+    · simp only [mergeGo, ← hty]
+      split
+      · rename_i hl; exact ih' _ _ ⟨hab, hl, na, nb⟩
+      · exact .cons hab (ih' none none trivial)
+    · rename_i p p'
+      simp only [mergeGo, ← hty]
+      split
+      · rename_i hl
+        refine ih' _ _ ⟨LBsame.joined hp.1 hab hp.2.1 hl na nb, ?_, lbNL_joined p a hl na, lbNL_joined p' b (hty ▸ hl) nb⟩
+        rw [joined_isLBt]; exact hp.2.1
+      · exact .cons hp.1 (.cons hab (ih' none none trivial))
+
+theorem dropLeadLB_rel {x x' : List Token} (h : AllRel LBsame x x') : AllRel LBsame (dropLeadLB x) (dropLeadLB x') := by
+  cases h with
+  | nil => exact .nil
+  | cons hab hr =>
+    simp only [dropLeadLB, ← hab.lbt_eq]
+    split
+    · exact hr
+    · exact .cons hab hr
+
+theorem dropTrailLB_rel {x x' : List Token} (h : AllRel LBsame x x') : AllRel LBsame (dropTrailLB x) (dropTrailLB x') := by
+  induction h with
+  | nil => exact .nil
+  | @cons a b as bs hab hr ih =>
+    cases hr with
+    | nil =>
+      simp only [dropTrailLB, ← hab.lbt_eq]
+      split
+      · exact .nil
+      · exact .cons hab .nil
+    | cons h2 hr2 =>
+      simp only [dropTrailLB]
+      exact .cons hab ih
+
+/-- `norm` respects "same up to last-line widths" -/
+theorem norm_rel {ts ts' : List Token} (h : AllRel LBsame ts ts') (n : ∀ t ∈ ts, lbNL t) (n' : ∀ t ∈ ts', lbNL t) :
+    AllRel LBsame (norm ts) (norm ts') := by
+  unfold norm trimLB mergeLB
+  apply dropTrailLB_rel
+  apply dropLeadLB_rel
+  apply mergeGo_rel (significant_rel h) _ _ none none trivial
+  · intro t ht; exact n t ((List.mem_filter.mp ht).1)
+  · intro t ht; exact n' t ((List.mem_filter.mp ht).1)
+
+theorem rebuild_LBsame {x x' : List Token} (h : AllRel LBsame x x') :
+    (rebuild (x ++ [Token.mkEOF])).map (List.map simplify) = (rebuild (x' ++ [Token.mkEOF])).map (List.map simplify) :=
+  rebuildLoop_rel (by decide) (by decide) (AllRel.append h (.cons (LBsame.refl _) .nil)) Ctx.init Ctx.init 0 (CtxRel.init 1 1)
+
+theorem rawTokOK_lbStrOK {d : TokenDef} {t : Token} (h : rawTokOK d t = true) : lbStrOK d t := by
+  intro hl
+  have hs : isSpaceTok t = true := by
+    have : t.type = T.lineBreak := by simpa [isLBt] using hl
+    simp [isSpaceTok, this]
+  simp only [rawTokOK, hs, Bool.not_true, Bool.false_or, Bool.and_eq_true, Bool.not_eq_true', List.all_eq_true] at h
+  refine ⟨?_, ?_⟩
+  · intro e; rw [e] at h; simp at h
+  · intro c hc; simpa using h.2.2 c hc
+
+/-- the lexer's shape implies the side conditions of the closed form -/
+theorem lexShaped_filterable {d : TokenDef} : ∀ (ts : List Token), lexShaped d ts = true → filterable d ts
+  | [], _ => ⟨rfl, by simp⟩
+  | [t], h => by
+    simp only [lexShaped] at h
+    exact ⟨by simp [noAdj_cons, noAdj_nil, headLB_nil], by intro x hx; simp at hx; subst hx; exact rawTokOK_lbStrOK h⟩
+  | a :: b :: rest, h => by
+    simp only [lexShaped, Bool.and_eq_true] at h
+    obtain ⟨⟨⟨h1, h2⟩, _⟩, h4⟩ := h
+    obtain ⟨i1, i2⟩ := lexShaped_filterable (b :: rest) h4
+    refine ⟨?_, ?_⟩
+    · simp only [noAdj_cons, headLB_cons, Bool.and_eq_true] at i1 ⊢
+      refine ⟨?_, i1⟩
+      simp only [isSpaceTok, Bool.not_eq_true', Bool.and_eq_false_iff] at h2
+      simp only [Bool.not_eq_true', Bool.and_eq_false_iff, isLBt]
+      cases h2 with
+      | inl h => left; simp at h ⊢; exact h.2
+      | inr h => right; simp at h ⊢; exact h.2
+    · intro x hx
+      simp only [List.mem_cons] at hx
+      cases hx with
+      | inl h => subst h; exact rawTokOK_lbStrOK h1
+      | inr h => exact i2 x (by simpa using h)
+
+/-! ### suffix locality: lexing from an offset only looks at the rest of the source -/
+
+theorem drop_shift (pre s : Str) (j : Nat) : (pre ++ s).drop (pre.length + j) = s.drop j := by
+  rw [List.drop_append]; simp
+
+theorem slice_shift (pre s : Str) (b e : Nat) : slice (pre ++ s) (pre.length + b) (pre.length + e) = slice s b e := by
+  unfold slice
+  rw [List.take_append, List.drop_append]
+  simp
+
+theorem getElem?_shift (pre s : Str) (j : Nat) : (pre ++ s)[pre.length + j]? = s[j]? := by
+  rw [List.getElem?_append_right (by omega)]; simp
+
+theorem charAt_shift (pre s : Str) (j : Nat) : charAt (pre ++ s) (pre.length + j) = charAt s j := by
+  unfold charAt; rw [getElem?_shift]
+
+theorem charIn_shift (a pre s : Str) (j : Nat) : charIn a (pre ++ s) (pre.length + j) = charIn a s j := by
+  unfold charIn; rw [charAt_shift]
+
+theorem startsWithAt_shift (pre s p : Str) (j : Nat) : startsWithAt (pre ++ s) p (pre.length + j) = startsWithAt s p j := by
+  unfold startsWithAt
+  rw [drop_shift]
+  congr 1
+  simp
+
+theorem findFrom_shift (pre s p : Str) (j : Nat) : findFrom (pre ++ s) p (pre.length + j) = (findFrom s p j).map (pre.length + ·) := by
+  unfold findFrom
+  rw [drop_shift]
+  by_cases h : j ≤ s.length
+  · have : pre.length + j ≤ (pre ++ s).length := by simp; omega
+    simp only [this, h, ↓reduceIte, Option.map_map]
+    congr 1; funext x; simp; omega
+  · simp [h]
+
+theorem spanLen_shift (a pre s : Str) (j : Nat) : spanLen a (pre ++ s) (pre.length + j) = spanLen a s j := by
+  unfold spanLen; rw [drop_shift]
+
+theorem anyOpen_shift (pairs : List (Str × Str)) (pre s : Str) (j : Nat) :
+    anyOpen pairs (pre ++ s) (pre.length + j) = anyOpen pairs s j := by
+  unfold anyOpen; simp [startsWithAt_shift]
+
+theorem firstOpen_shift (pairs : List (Str × Str)) (pre s : Str) (j : Nat) :
+    firstOpen pairs (pre ++ s) (pre.length + j) = firstOpen pairs s j := by
+  unfold firstOpen; simp [startsWithAt_shift]
+
+theorem analyzeDomain_shift (d : TokenDef) (pre s : Str) (j : Nat) :
+    analyzeDomain d (pre ++ s) (pre.length + j) = analyzeDomain d s j := by
+  unfold analyzeDomain
+  generalize d.analyzeOrder = order
+  induction order with
+  | nil => rfl
+  | cons x rest ih =>
+    unfold analyzeGo
+    have : analyzer d x (pre ++ s) (pre.length + j) = analyzer d x s j := by
+      unfold analyzer; simp [charIn_shift, anyOpen_shift]
+    rw [this, ih]
+
+/-- what a sub-parser result says up to the offset `n` and the source map -/
+def viewR (n : Nat) (r : Except Err (Nat × Token)) : Except Err (Nat × Nat × Str) :=
+  r.map (fun x => (x.1 - n, x.2.type, x.2.string))
+
+theorem escapeRun_fuel (src : Str) (body index : Nat) : ∀ (f f' esc : Nat), index - body - esc ≤ f → index - body - esc ≤ f' →
+    escapeRun src body index f esc = escapeRun src body index f' esc
+  | 0, 0, _, _, _ => rfl
+  | 0, f' + 1, esc, h, _ => by
+    have : ¬ index - esc > body := by omega
+    simp [escapeRun, this]
+  | f + 1, 0, esc, _, h => by
+    have : ¬ index - esc > body := by omega
+    simp [escapeRun, this]
+  | f + 1, f' + 1, esc, h, h' => by
+    simp only [escapeRun]
+    split
+    · exact escapeRun_fuel src body index f f' (esc + 1) (by omega) (by omega)
+    · rfl
+
+theorem escapeRun_shift (pre s : Str) (body index : Nat) : ∀ (f esc : Nat),
+    escapeRun (pre ++ s) (pre.length + body) (pre.length + index) f esc = escapeRun s body index f esc
+  | 0, _ => rfl
+  | f + 1, esc => by
+    simp only [escapeRun]
+    by_cases h : index - esc > body
+    · have h' : pre.length + index - esc > pre.length + body := by omega
+      have e : pre.length + index - esc - 1 = pre.length + (index - esc - 1) := by omega
+      simp only [h, h', decide_true, Bool.true_and, e, getElem?_shift]
+      split
+      · exact escapeRun_shift pre s body index f (esc + 1)
+      · rfl
+    · have h' : ¬ pre.length + index - esc > pre.length + body := by omega
+      simp [h, h']
+
+theorem quoteLoop_shift (pre s close : Str) (body : Nat) : ∀ (fuel e : Nat),
+    quoteLoop (pre ++ s) close (pre.length + body) fuel (pre.length + e) = (quoteLoop s close body fuel e).map (pre.length + ·)
+  | fuel, e => by
+    unfold quoteLoop
+    have hlt : (pre.length + e < (pre ++ s).length) = (e < s.length) := by simp
+    simp only [hlt]
+    split
+    · cases fuel with
+      | zero => rfl
+      | succ f =>
+        simp only [findFrom_shift]
+        cases hf : findFrom s close e with
+        | none => rfl
+        | some idx =>
+          simp only [Option.map_some]
+          have hb := findFrom_bound hf
+          rw [escapeRun_fuel (pre ++ s) (pre.length + body) (pre.length + idx) (pre.length + idx + 1) (idx + 1) 0 (by omega) (by omega),
+            escapeRun_shift]
+          split
+          · have := quoteLoop_shift pre s close body f (idx + 1)
+            rw [← this, Nat.add_assoc]
+          · simp [Except.map]; omega
+    · rfl
+
+theorem quoteLoop_fuel_indep {src close : Str} (hc : 0 < close.length) (body : Nat) : ∀ (fuel fuel' e : Nat),
+    src.length - e ≤ fuel → src.length - e ≤ fuel' → quoteLoop src close body fuel e = quoteLoop src close body fuel' e
+  | fuel, fuel', e, h, h' => by
+    unfold quoteLoop
+    split
+    · rename_i hlt
+      cases fuel with
+      | zero => omega
+      | succ f =>
+        cases fuel' with
+        | zero => omega
+        | succ f' =>
+          simp only []
+          cases hf : findFrom src close e with
+          | none => rfl
+          | some idx =>
+            have hb := findFrom_bound hf
+            simp only []
+            split
+            · exact quoteLoop_fuel_indep hc body f f' (idx + 1) (by omega) (by omega)
+            · rfl
+    · rfl
+
+variable (d : TokenDef) (pre s : Str) (j : Nat)
+
+theorem parseWhiteSpace_shift :
+    viewR pre.length (parseWhiteSpace d (pre ++ s) (pre.length + j)) = viewR 0 (parseWhiteSpace d s j) := by
+  unfold parseWhiteSpace
+  simp only [spanLen_shift, Nat.add_assoc, slice_shift]
+  repeat' split
+  all_goals (simp [viewR, Except.map] <;> try omega)
+
+theorem parseNumber_shift :
+    viewR pre.length (parseNumber d (pre ++ s) (pre.length + j)) = viewR 0 (parseNumber d s j) := by
+  unfold parseNumber
+  simp only [spanLen_shift, Nat.add_assoc, slice_shift]
+  simp [viewR, Except.map]
+
+theorem parseIdentifier_shift :
+    viewR pre.length (parseIdentifier d (pre ++ s) (pre.length + j)) = viewR 0 (parseIdentifier d s j) := by
+  unfold parseIdentifier
+  simp only [spanLen_shift, Nat.add_assoc, slice_shift]
+  simp [viewR, Except.map]
+
+theorem parseComment_shift :
+    viewR pre.length (parseComment d (pre ++ s) (pre.length + j)) = viewR 0 (parseComment d s j) := by
+  unfold parseComment
+  rw [firstOpen_shift]
+  cases hf : firstOpen d.comment s j with
+  | error e => rfl
+  | ok pair =>
+    simp only [bind, Except.bind, Nat.add_assoc, findFrom_shift]
+    cases hfind : findFrom s pair.2 (j + pair.1.length) with
+    | none =>
+      simp only [Option.map_none, pure, Except.pure, viewR, Except.map]
+      have : (pre ++ s).length = pre.length + s.length := by simp
+      rw [this, slice_shift]; simp
+    | some idx =>
+      simp only [Option.map_some, pure, Except.pure, viewR, Except.map, Nat.add_assoc, slice_shift]
+      simp
+
+theorem parseQuote_shift (hw : wf d = true) :
+    viewR pre.length (parseQuote d (pre ++ s) (pre.length + j)) = viewR 0 (parseQuote d s j) := by
+  unfold parseQuote
+  rw [firstOpen_shift]
+  cases hf : firstOpen d.quote s j with
+  | error e => rfl
+  | ok pair =>
+    obtain ⟨hmem, hs⟩ := firstOpen_ok hf
+    have hlen := wf_quote hw hmem
+    have hbound := startsWithAt_bound hs
+    simp only [bind, Except.bind, Nat.add_assoc]
+    have hq : quoteLoop (pre ++ s) pair.2 (pre.length + (j + pair.1.length)) (pre ++ s).length (pre.length + (j + pair.1.length))
+        = (quoteLoop s pair.2 (j + pair.1.length) s.length (j + pair.1.length)).map (pre.length + ·) := by
+      rw [← quoteLoop_shift]
+      apply quoteLoop_fuel_indep hlen.2 <;> simp <;> omega
+    rw [hq]
+    cases hr : quoteLoop s pair.2 (j + pair.1.length) s.length (j + pair.1.length) with
+    | error e => rfl
+    | ok e =>
+      simp only [Except.map, slice_shift]
+      split
+      · rfl
+      · simp [viewR, Except.map, pure, Except.pure]
+
+theorem combined_shift (w : Nat) (hwid : 0 < w) :
+    (combined d (pre ++ s) (pre.length + j) w).map (Option.map (fun x => (x.1 - pre.length, x.2.type, x.2.string)))
+      = (combined d s j w).map (Option.map (fun x => (x.1, x.2.type, x.2.string))) := by
+  unfold combined
+  simp only [Nat.add_assoc, slice_shift]
+  have : (pre.length + (j + w) - 1 ≥ (pre ++ s).length) = (j + w - 1 ≥ s.length) := by
+    simp only [List.length_append, ge_iff_le, eq_iff_iff]; omega
+  simp only [this]
+  split
+  · rfl
+  · split
+    · rfl
+    · rename_i off _
+      cases typeOf d (T.beginCombine + off) with
+      | error e => rfl
+      | ok ty => simp [bind, Except.bind, pure, Except.pure, Except.map]
+
+theorem parseSymbol_shift :
+    viewR pre.length (parseSymbol d (pre ++ s) (pre.length + j)) = viewR 0 (parseSymbol d s j) := by
+  have h3 := combined_shift d pre s j 3 (by omega)
+  have h2 := combined_shift d pre s j 2 (by omega)
+  unfold parseSymbol
+  cases c3 : combined d s j 3 with
+  | error e =>
+    cases c3' : combined d (pre ++ s) (pre.length + j) 3 with
+    | error e' => rw [c3, c3'] at h3; simp [Except.map] at h3; subst h3; rfl
+    | ok r => rw [c3, c3'] at h3; simp [Except.map] at h3
+  | ok r3 =>
+    cases c3' : combined d (pre ++ s) (pre.length + j) 3 with
+    | error e' => rw [c3, c3'] at h3; simp [Except.map] at h3
+    | ok r3' =>
+      rw [c3, c3'] at h3
+      simp only [Except.map, Except.ok.injEq] at h3
+      simp only [bind, Except.bind]
+      cases r3 with
+      | some r =>
+        cases r3' with
+        | none => simp at h3
+        | some r' =>
+          simp only [Option.map_some, Option.some.injEq, Prod.mk.injEq] at h3
+          simp [viewR, Except.map, pure, Except.pure, h3]
+      | none =>
+        cases r3' with
+        | some r' => simp at h3
+        | none =>
+          simp only []
+          cases c2 : combined d s j 2 with
+          | error e =>
+            cases c2' : combined d (pre ++ s) (pre.length + j) 2 with
+            | error e' => rw [c2, c2'] at h2; simp [Except.map] at h2; subst h2; rfl
+            | ok r => rw [c2, c2'] at h2; simp [Except.map] at h2
+          | ok r2 =>
+            cases c2' : combined d (pre ++ s) (pre.length + j) 2 with
+            | error e' => rw [c2, c2'] at h2; simp [Except.map] at h2
+            | ok r2' =>
+              rw [c2, c2'] at h2
+              simp only [Except.map, Except.ok.injEq] at h2
+              cases r2 with
+              | some r =>
+                cases r2' with
+                | none => simp at h2
+                | some r' =>
+                  simp only [Option.map_some, Option.some.injEq, Prod.mk.injEq] at h2
+                  simp [viewR, Except.map, pure, Except.pure, h2]
+              | none =>
+                cases r2' with
+                | some r' => simp at h2
+                | none =>
+                  simp only [charAt_shift]
+                  cases charAt s j with
+                  | error e => rfl
+                  | ok value =>
+                    simp only []
+                    split
+                    · rfl
+                    · rename_i off _
+                      cases typeOf d (Dom.symbol * 16 + off) with
+                      | error e => rfl
+                      | ok ty =>
+                        simp only [Nat.add_assoc, charIn_shift]
+                        have hl : (pre.length + (j + 1) < (pre ++ s).length) = (j + 1 < s.length) := by simp
+                        simp only [hl]
+                        split
+                        · split
+                          · cases charIn d.whiteSpace s (j + 1) with
+                            | error e => rfl
+                            | ok ws =>
+                              simp only []
+                              split <;> simp [viewR, Except.map, pure, Except.pure, Token.opUnaryMinus] <;> try omega
+                          · simp [viewR, Except.map, pure, Except.pure] <;> try omega
+                        · simp [viewR, Except.map, pure, Except.pure] <;> try omega
+
+theorem parser_shift (hw : wf d = true) (dom : Nat) :
+    viewR pre.length (parser d dom (pre ++ s) (pre.length + j)) = viewR 0 (parser d dom s j) := by
+  unfold parser
+  split
+  · exact parseWhiteSpace_shift d pre s j
+  · split
+    · exact parseComment_shift d pre s j
+    · split
+      · exact parseQuote_shift d pre s j hw
+      · split
+        · exact parseNumber_shift d pre s j
+        · split
+          · exact parseIdentifier_shift d pre s j
+          · split
+            · exact parseSymbol_shift d pre s j
+            · rfl
+
+def viewL (r : Except Err (List Token)) : Except Err (List (Nat × Str)) := r.map (List.map simplify)
+
+theorem parseLoop_fuel_indep {d : TokenDef} (hw : wf d = true) {src : Str} : ∀ (fuel fuel' i : Nat),
+    src.length - i ≤ fuel → src.length - i ≤ fuel' → parseLoop d src fuel i = parseLoop d src fuel' i
+  | fuel, fuel', i, h, h' => by
+    unfold parseLoop
+    split
+    · rename_i hlt
+      cases fuel with
+      | zero => omega
+      | succ f =>
+        cases fuel' with
+        | zero => omega
+        | succ f' =>
+          simp only []
+          cases hd : analyzeDomain d src i with
+          | error e => rfl
+          | ok dom =>
+            simp only [bind, Except.bind]
+            cases hp : parser d dom src i with
+            | error e => rfl
+            | ok r =>
+              obtain ⟨e, t⟩ := r
+              have hs := parser_ok hw hlt hd hp
+              simp only []
+              rw [parseLoop_fuel_indep hw (src := src) f f' e (by have := hs.lt; omega) (by have := hs.lt; omega)]
+    · rfl
+
+theorem parseLoop_shift {d : TokenDef} (hw : wf d = true) (pre s : Str) : ∀ (fuel j : Nat),
+    viewL (parseLoop d (pre ++ s) fuel (pre.length + j)) = viewL (parseLoop d s fuel j)
+  | fuel, j => by
+    unfold parseLoop
+    have hlt : (pre.length + j < (pre ++ s).length) = (j < s.length) := by simp
+    simp only [hlt]
+    split
+    · rename_i hj
+      cases fuel with
+      | zero => rfl
+      | succ f =>
+        simp only [analyzeDomain_shift]
+        cases hd : analyzeDomain d s j with
+        | error e => rfl
+        | ok dom =>
+          simp only [bind, Except.bind]
+          have hv := parser_shift d pre s j hw dom
+          have hd' : analyzeDomain d (pre ++ s) (pre.length + j) = .ok dom := by rw [analyzeDomain_shift]; exact hd
+          cases hp : parser d dom s j with
+          | error e =>
+            cases hp' : parser d dom (pre ++ s) (pre.length + j) with
+            | error e' => rw [hp, hp'] at hv; simp [viewR, Except.map] at hv; subst hv; rfl
+            | ok r => rw [hp, hp'] at hv; simp [viewR, Except.map] at hv
+          | ok r =>
+            cases hp' : parser d dom (pre ++ s) (pre.length + j) with
+            | error e' => rw [hp, hp'] at hv; simp [viewR, Except.map] at hv
+            | ok r' =>
+              obtain ⟨e, t⟩ := r
+              obtain ⟨e', t'⟩ := r'
+              rw [hp, hp'] at hv
+              simp only [viewR, Except.map, Except.ok.injEq, Prod.mk.injEq, Nat.sub_zero] at hv
+              have hs' := parser_ok hw (by simp; omega) hd' hp'
+              have he : e' = pre.length + e := by have := hs'.lt; omega
+              subst he
+              have ih := parseLoop_shift hw pre s f e
+              simp only []
+              cases r1 : parseLoop d (pre ++ s) f (pre.length + e) <;> cases r2 : parseLoop d s f e <;>
+                simp [r1, r2, viewL, Except.map, pure, Except.pure] at ih ⊢
+              · exact ih
+              · simp [simplify, hv.2.1, hv.2.2, ih]
+    · rfl
+
+/-- the first token of a (non-empty) rest of the source -/
+def step (d : TokenDef) (s : Str) : Except Err (Nat × Token) := do
+  let dom ← analyzeDomain d s 0
+  parser d dom s 0
+
+/-- `parse_impl` up to source maps -/
+def lexS (d : TokenDef) (s : Str) : Except Err (List (Nat × Str)) := viewL (parseImpl d s)
+
+theorem lexS_nil (d : TokenDef) : lexS d [] = .ok [] := by
+  simp [lexS, viewL, parseImpl, parseLoop, Except.map]
+
+/-- `parse_impl` is a left-to-right scanner: the first token, then the same on what is left — nothing depends on the
+    text already consumed (only the source maps do). -/
+theorem lexS_unfold {d : TokenDef} (hw : wf d = true) (s : Str) (hne : s ≠ []) :
+    lexS d s = match step d s with
+      | .error e => .error e
+      | .ok (e, t) => (lexS d (s.drop e)).map (fun rest => simplify t :: rest) := by
+  have hpos : 0 < s.length := List.length_pos_iff.mpr hne
+  unfold lexS parseImpl step
+  obtain ⟨f, hf⟩ : ∃ f, s.length = f + 1 := ⟨s.length - 1, by omega⟩
+  rw [hf]
+  conv => lhs; unfold parseLoop
+  simp only [hf, Nat.zero_lt_succ, ↓reduceIte]
+  cases hd : analyzeDomain d s 0 with
+  | error e => rfl
+  | ok dom =>
+    simp only [bind, Except.bind]
+    cases hp : parser d dom s 0 with
+    | error e => rfl
+    | ok r =>
+      obtain ⟨e, t⟩ := r
+      have hs := parser_ok hw hpos hd hp
+      simp only []
+      have hle := hs.le
+      have hlt := hs.lt
+      generalize hr : s.drop e = r
+      have hrl : r.length = s.length - e := by rw [← hr]; simp
+      have hsplit : s.take e ++ r = s := by rw [← hr]; exact List.take_append_drop e s
+      have hlen : (s.take e).length = e := by simp; omega
+      have h1 := parseLoop_shift hw (s.take e) r f 0
+      rw [hsplit, hlen, Nat.add_zero] at h1
+      have h2 : parseLoop d r f 0 = parseLoop d r r.length 0 :=
+        parseLoop_fuel_indep hw f _ 0 (by omega) (by omega)
+      rw [h2] at h1
+      cases r1 : parseLoop d s f e <;> cases r2 : parseLoop d r r.length 0 <;>
+        simp [r1, r2, viewL, Except.map, pure, Except.pure] at h1 ⊢
+      · exact h1
+      · exact h1
+
+/-! ### how far the first token looks: primitives on `x ++ r` -/
+
+set_option linter.unusedSimpArgs false
+
+def headIn (a : Str) : Str → Bool
+  | [] => false
+  | c :: _ => a.contains c
+
+theorem slice_left (x r : Str) (w : Nat) (h : w ≤ x.length) : slice (x ++ r) 0 w = x.take w := by
+  unfold slice
+  rw [List.take_append_of_le_length h]; simp
+
+theorem slice_left_all (x r : Str) : slice (x ++ r) 0 x.length = x := by
+  rw [slice_left x r x.length (Nat.le_refl _)]; simp
+
+theorem takeWhile_append_stop (f : Char → Bool) : ∀ (x r : Str), (∀ c ∈ x, f c = true) → (match r with | [] => true | c :: _ => !f c) = true →
+    (x ++ r).takeWhile f = x
+  | [], [], _, _ => rfl
+  | [], c :: cs, _, h => by simp at h; simp [List.takeWhile, h]
+  | a :: as, r, hx, h => by
+    have ha : f a = true := hx a (by simp)
+    simp only [List.cons_append, List.takeWhile, ha]
+    rw [takeWhile_append_stop f as r (fun c hc => hx c (by simp [hc])) h]
+
+theorem takeWhile_eq_prefix (f : Char → Bool) : ∀ (x r : Str), ((x ++ r).takeWhile f).length = x.length →
+    (∀ c ∈ x, f c = true) ∧ (match r with | [] => true | c :: _ => !f c) = true
+  | [], [], _ => by simp
+  | [], c :: cs, h => by
+    cases hc : f c
+    · simp [hc]
+    · simp [List.takeWhile, hc] at h
+  | a :: as, r, h => by
+    cases ha : f a
+    · simp [List.takeWhile, ha] at h
+    · simp only [List.cons_append, List.takeWhile, ha, List.length_cons, Nat.add_right_cancel_iff] at h
+      obtain ⟨h1, h2⟩ := takeWhile_eq_prefix f as r h
+      refine ⟨?_, h2⟩
+      intro c hc
+      simp only [List.mem_cons] at hc
+      cases hc with
+      | inl e => rw [e]; exact ha
+      | inr e => exact h1 c e
+
+theorem headIn_match (a : Str) (r : Str) : (match r with | [] => true | c :: _ => !(a.contains c)) = !headIn a r := by
+  cases r <;> rfl
+
+/-- a run token: `spanLen` stops exactly at `|x|` iff `x` is inside the alphabet and what follows does not start in it -/
+theorem spanLen_prefix_iff (a x r : Str) :
+    spanLen a (x ++ r) 0 = x.length ↔ ((∀ c ∈ x, a.contains c = true) ∧ headIn a r = false) := by
+  unfold spanLen
+  simp only [List.drop_zero]
+  constructor
+  · intro h
+    obtain ⟨h1, h2⟩ := takeWhile_eq_prefix (fun c => a.contains c) x r h
+    rw [headIn_match] at h2
+    exact ⟨h1, by simpa using h2⟩
+  · intro ⟨h1, h2⟩
+    rw [takeWhile_append_stop (fun c => a.contains c) x r h1 (by rw [headIn_match]; simp [h2])]
+
+theorem startsWith_iff_prefix : ∀ (s p : Str), Str.startsWith s p = true ↔ ∃ t, s = p ++ t
+  | _, [] => by simp [Str.startsWith]
+  | [], q :: qs => by simp [Str.startsWith]
+  | c :: cs, q :: qs => by
+    simp only [Str.startsWith, Bool.and_eq_true, decide_eq_true_eq, startsWith_iff_prefix cs qs, List.cons_append, List.cons.injEq]
+    constructor
+    · rintro ⟨h1, t, h2⟩; exact ⟨t, h1, h2⟩
+    · rintro ⟨t, h1, h2⟩; exact ⟨h1, t, h2⟩
+
+/-- a blank-free pattern that matches `x ++ c ++ r0'` (where `r0'` is empty or starts with a white space character) already
+    matches `x ++ c ++ r0` -/
+theorem startsWith_transfer (ws x c r0 r0' p : Str) (hp : ∀ ch ∈ p, ws.contains ch = false)
+    (h0 : r0' = [] ∨ headIn ws r0' = true) (h : Str.startsWith (x ++ c ++ r0') p = true) :
+    Str.startsWith (x ++ c ++ r0) p = true := by
+  rw [startsWith_iff_prefix] at h ⊢
+  obtain ⟨t, ht⟩ := h
+  by_cases hl : p.length ≤ (x ++ c).length
+  · -- the match lies inside `x ++ c`
+    have h1 : (x ++ c ++ r0').take p.length = p := by rw [ht]; simp
+    rw [List.take_append_of_le_length hl] at h1
+    refine ⟨(x ++ c).drop p.length ++ r0, ?_⟩
+    rw [← List.append_assoc]
+    have h2 : (x ++ c).take p.length ++ (x ++ c).drop p.length = x ++ c := List.take_append_drop _ _
+    rw [h1] at h2
+    rw [h2]
+  · -- it would have to contain the first character of `r0'`
+    exfalso
+    have hlen : (x ++ c).length < p.length := by omega
+    cases h0 with
+    | inl h0 =>
+      subst h0
+      have : (x ++ c ++ []).length = (p ++ t).length := by rw [ht]
+      simp at this; simp at hlen; omega
+    | inr h0 =>
+      cases r0' with
+      | nil => simp [headIn] at h0
+      | cons ch rest =>
+        simp only [headIn] at h0
+        have h1 : (x ++ c ++ ch :: rest)[(x ++ c).length]? = some ch := by
+          rw [List.getElem?_append_right (Nat.le_refl _)]; simp
+        rw [ht, List.getElem?_append_left hlen] at h1
+        have hmem : ch ∈ p := List.mem_of_getElem? h1
+        have := hp ch hmem
+        rw [this] at h0; cases h0
+
+theorem startsWith_left (a b p : Str) (h : p.length ≤ a.length) : Str.startsWith (a ++ b) p = Str.startsWith a p := by
+  induction p generalizing a with
+  | nil => simp [Str.startsWith]
+  | cons q qs ih =>
+    cases a with
+    | nil => simp at h
+    | cons c cs =>
+      simp only [List.cons_append, Str.startsWith]
+      rw [ih cs (by simpa using h)]
+
+/-- a match found inside `a` is found at the same place whatever follows `a` -/
+theorem findSub_left (p : Str) : ∀ (a b b' : Str) (i : Nat), findSub p (a ++ b) = some i → i + p.length ≤ a.length →
+    findSub p (a ++ b') = some i
+  | [], b, b', i, h, hl => by
+    have hp : p = [] := by cases p with | nil => rfl | cons _ _ => simp at hl
+    have hi : i = 0 := by simp at hl; omega
+    subst hp hi
+    cases b' <;> simp [findSub, Str.startsWith]
+  | c :: cs, b, b', i, h, hl => by
+    simp only [List.cons_append, findSub] at h ⊢
+    by_cases hs : Str.startsWith (c :: (cs ++ b)) p = true
+    · simp only [hs, ↓reduceIte, Option.some.injEq] at h
+      subst h
+      have hpl : p.length ≤ (c :: cs).length := by omega
+      have := startsWith_left (c :: cs) b p hpl
+      have h' := startsWith_left (c :: cs) b' p hpl
+      simp only [List.cons_append] at this h'
+      rw [h', ← this, hs]; rfl
+    · simp only [hs, Bool.false_eq_true, ↓reduceIte] at h
+      cases hf : findSub p (cs ++ b) with
+      | none => rw [hf] at h; cases h
+      | some j =>
+        rw [hf] at h
+        simp only [Option.map_some, Option.some.injEq] at h
+        subst h
+        have hpl : p.length ≤ (c :: cs).length := by simp at hl ⊢; omega
+        have := startsWith_left (c :: cs) b p hpl
+        have h' := startsWith_left (c :: cs) b' p hpl
+        simp only [List.cons_append] at this h'
+        have hs' : Str.startsWith (c :: (cs ++ b')) p = false := by
+          rw [h', ← this]; simpa using hs
+        simp only [hs', Bool.false_eq_true, ↓reduceIte]
+        rw [findSub_left p cs b b' j hf (by simp at hl; omega)]
+        rfl
+
+theorem findSub_single_none (c : Char) : ∀ s : Str, c ∉ s → findSub [c] s = none
+  | [], _ => by simp [findSub]
+  | x :: xs, h => by
+    have hx : ¬ x = c := fun e => h (by simp [e])
+    have hxs : c ∉ xs := fun e => h (by simp [e])
+    simp [findSub, Str.startsWith, hx, findSub_single_none c xs hxs]
+
+theorem findSub_single_at (c : Char) : ∀ (a b : Str), c ∉ a → findSub [c] (a ++ c :: b) = some a.length
+  | [], b, _ => by simp [findSub, Str.startsWith]
+  | x :: xs, b, h => by
+    have hx : ¬ x = c := fun e => h (by simp [e])
+    have hxs : c ∉ xs := fun e => h (by simp [e])
+    simp [findSub, Str.startsWith, hx, findSub_single_at c xs b hxs]
+
+theorem findSub_single_some (c : Char) : ∀ (s : Str) (i : Nat), findSub [c] s = some i → c ∉ s.take i ∧ s[i]? = some c
+  | [], i, h => by simp [findSub] at h
+  | x :: xs, i, h => by
+    simp only [findSub, Str.startsWith, Bool.and_true, decide_eq_true_eq] at h
+    by_cases hx : x = c
+    · simp only [hx, ↓reduceIte, Option.some.injEq] at h
+      subst h; simp [hx]
+    · simp only [hx, ↓reduceIte] at h
+      cases hf : findSub [c] xs with
+      | none => rw [hf] at h; cases h
+      | some j =>
+        rw [hf] at h; simp only [Option.map_some, Option.some.injEq] at h; subst h
+        obtain ⟨h1, h2⟩ := findSub_single_some c xs j hf
+        refine ⟨?_, by simpa using h2⟩
+        simp only [List.take_succ_cons, List.mem_cons, not_or]
+        exact ⟨fun e => hx e.symm, h1⟩
+
+theorem findSub_single_none_iff (c : Char) (s : Str) (h : findSub [c] s = none) : c ∉ s := by
+  induction s with
+  | nil => simp
+  | cons x xs ih =>
+    simp only [findSub, Str.startsWith, Bool.and_true, decide_eq_true_eq] at h
+    by_cases hx : x = c
+    · simp [hx] at h
+    · simp only [hx, ↓reduceIte] at h
+      cases hf : findSub [c] xs with
+      | none => simp only [List.mem_cons, not_or]; exact ⟨fun e => hx e.symm, ih hf⟩
+      | some j => rw [hf] at h; cases h
+
+theorem escapeRun_left (x r r' : Str) (body index : Nat) (hi : index ≤ x.length) : ∀ (f esc : Nat),
+    escapeRun (x ++ r) body index f esc = escapeRun (x ++ r') body index f esc
+  | 0, _ => rfl
+  | f + 1, esc => by
+    simp only [escapeRun]
+    by_cases h : index - esc > body
+    · have hl : index - esc - 1 < x.length := by omega
+      rw [List.getElem?_append_left hl, List.getElem?_append_left hl, escapeRun_left x r r' body index hi f (esc + 1)]
+    · simp [h]
+
+/-- ghost: the quote loop ended on an unescaped closing sequence (the string literal is terminated) -/
+def quoteLoopC (src close : Str) (body : Nat) : Nat → Nat → Bool
+  | fuel, e =>
+    if e < src.length then
+      match fuel with
+      | 0 => false
+      | f + 1 =>
+        match findFrom src close e with
+        | none => false
+        | some idx =>
+          if escapeRun src body idx (idx + 1) 0 % 2 = 1 then quoteLoopC src close body f (idx + 1) else true
+    else false
+
+theorem findFrom_left (x r r' p : Str) (e idx : Nat) (he : e ≤ x.length) (h : findFrom (x ++ r) p e = some idx)
+    (hl : idx + p.length ≤ x.length) : findFrom (x ++ r') p e = some idx := by
+  unfold findFrom at h ⊢
+  have h1 : e ≤ (x ++ r).length := by simp; omega
+  have h2 : e ≤ (x ++ r').length := by simp; omega
+  simp only [h1, h2, ↓reduceIte] at h ⊢
+  rw [List.drop_append_of_le_length he] at h ⊢
+  cases hf : findSub p (x.drop e ++ r) with
+  | none => rw [hf] at h; cases h
+  | some j =>
+    rw [hf] at h; simp only [Option.map_some, Option.some.injEq] at h
+    rw [findSub_left p (x.drop e) r r' j hf (by simp; omega)]
+    simp [h]
+
+/-- a terminated run of the quote loop ends at least one closing sequence after where it started -/
+theorem quoteLoop_closed_ge (src close : Str) (body : Nat) : ∀ (fuel e E : Nat),
+    quoteLoop src close body fuel e = .ok E → quoteLoopC src close body fuel e = true → e + close.length ≤ E
+  | fuel, e, E, h, hC => by
+    unfold quoteLoop at h
+    unfold quoteLoopC at hC
+    split at h
+    · rename_i hlt
+      simp only [hlt, ↓reduceIte] at hC
+      cases fuel with
+      | zero => cases h
+      | succ f =>
+        simp only [] at h hC
+        cases hf : findFrom src close e with
+        | none => rw [hf] at hC; cases hC
+        | some idx =>
+          rw [hf] at h hC
+          simp only [] at h hC
+          have hb := findFrom_bound hf
+          by_cases hesc : escapeRun src body idx (idx + 1) 0 % 2 = 1
+          · simp only [hesc, ↓reduceIte] at h hC
+            have := quoteLoop_closed_ge src close body f (idx + 1) E h hC
+            omega
+          · simp only [hesc, ↓reduceIte, Except.ok.injEq] at h
+            omega
+    · rename_i hge
+      simp only [hge, ↓reduceIte] at hC
+      cases hC
+
+/-- a terminated string literal `x` is read the same whatever follows it -/
+theorem quoteLoop_left (x r r' close : Str) (body : Nat) (hc : 0 < close.length) : ∀ (fuel e : Nat), e ≤ x.length →
+    quoteLoop (x ++ r) close body fuel e = .ok x.length → quoteLoopC (x ++ r) close body fuel e = true →
+    quoteLoop (x ++ r') close body fuel e = .ok x.length
+  | fuel, e, he, h, hC => by
+    have hge := quoteLoop_closed_ge _ _ _ _ _ _ h hC
+    unfold quoteLoop at h ⊢
+    unfold quoteLoopC at hC
+    split at h
+    · rename_i hlt
+      simp only [hlt, ↓reduceIte] at hC
+      cases fuel with
+      | zero => cases h
+      | succ f =>
+        simp only [] at h hC
+        cases hf : findFrom (x ++ r) close e with
+        | none => rw [hf] at hC; cases hC
+        | some idx =>
+          rw [hf] at h hC
+          simp only [] at h hC
+          have hb := findFrom_bound hf
+          by_cases hesc : escapeRun (x ++ r) body idx (idx + 1) 0 % 2 = 1
+          · simp only [hesc, ↓reduceIte] at h hC
+            have hge2 := quoteLoop_closed_ge _ _ _ _ _ _ h hC
+            have hlt' : e < (x ++ r').length := by simp; omega
+            have hf' := findFrom_left x r r' close e idx he hf (by omega)
+            have hesc' : escapeRun (x ++ r') body idx (idx + 1) 0 % 2 = 1 := by
+              rw [← escapeRun_left x r r' body idx (by omega)]; exact hesc
+            simp only [hlt', ↓reduceIte, hf', hesc']
+            exact quoteLoop_left x r r' close body hc f (idx + 1) (by omega) h hC
+          · simp only [hesc, ↓reduceIte, Except.ok.injEq] at h
+            have hlt' : e < (x ++ r').length := by simp; omega
+            have hf' := findFrom_left x r r' close e idx he hf (by omega)
+            have hesc' : ¬ escapeRun (x ++ r') body idx (idx + 1) 0 % 2 = 1 := by
+              rw [← escapeRun_left x r r' body idx (by omega)]; exact hesc
+            simp only [hlt', ↓reduceIte, hf', hesc', h]
+    · rename_i hge'
+      simp only [hge', ↓reduceIte] at hC
+      cases hC
+
+/-! ### the first token is stable under changes of what follows it -/
+
+def blankFree (d : TokenDef) (p : Str) : Bool := p.all (fun c => !d.whiteSpace.contains c)
+
+/-- side conditions for the character-level layout theorems (decided for the generated definitions): comments end at the
+    newline; openers and combined symbols contain no white space; white space characters are in no other alphabet -/
+def wfLayout (d : TokenDef) : Bool :=
+  d.comment.all (fun p => p.2 == ['\n'] && blankFree d p.1) &&
+  d.quote.all (fun p => blankFree d p.1) &&
+  d.combinedSymbols.all (blankFree d) &&
+  d.whiteSpace.all (fun c => !d.number.contains c && !d.identifier.contains c && !d.symbol.contains c) &&
+  d.whiteSpace.contains '\n'
+
+/-- the patterns the lexer looks for beyond the first character: openers and combined symbols -/
+def lookPats (d : TokenDef) : List Str := d.comment.map (·.1) ++ d.quote.map (·.1) ++ d.combinedSymbols
+
+/-- every look-ahead pattern that matches `s'` also matches `s` -/
+def LookOK (d : TokenDef) (s s' : Str) : Prop := ∀ p ∈ lookPats d, Str.startsWith s' p = true → Str.startsWith s p = true
+
+theorem startsWithAt_zero (s p : Str) : startsWithAt s p 0 = Str.startsWith s p := by simp [startsWithAt]
+
+theorem charIn_zero (a : Str) (c : Char) (cs : Str) : charIn a (c :: cs) 0 = .ok (a.contains c) := by
+  simp [charIn, charAt, bind, Except.bind, pure, Except.pure]
+
+theorem anyOpen_transfer {d : TokenDef} {s s' : Str} (pairs : List (Str × Str)) (hsub : ∀ p ∈ pairs, p.1 ∈ lookPats d)
+    (hl : LookOK d s s') (h : anyOpen pairs s' 0 = true) : anyOpen pairs s 0 = true := by
+  simp only [anyOpen, List.any_eq_true, startsWithAt_zero] at h ⊢
+  obtain ⟨p, hp, hm⟩ := h
+  exact ⟨p, hp, hl p.1 (hsub p hp) hm⟩
+
+theorem comment_sub (d : TokenDef) : ∀ p ∈ d.comment, p.1 ∈ lookPats d := by
+  intro p hp; simp only [lookPats, List.mem_append, List.mem_map]; exact Or.inl (Or.inl ⟨p, hp, rfl⟩)
+
+theorem quote_sub (d : TokenDef) : ∀ p ∈ d.quote, p.1 ∈ lookPats d := by
+  intro p hp; simp only [lookPats, List.mem_append, List.mem_map]; exact Or.inl (Or.inr ⟨p, hp, rfl⟩)
+
+/-- analyzers that said "no" on `s` say "no" on `s'` (same first character, no new opener) -/
+theorem analyzer_false_transfer {d : TokenDef} {c : Char} {cs cs' : Str} (hl : LookOK d (c :: cs) (c :: cs')) (y : Nat)
+    (h : analyzer d y (c :: cs) 0 = .ok false) : analyzer d y (c :: cs') 0 = .ok false := by
+  unfold analyzer at h ⊢
+  simp only [charIn_zero] at h ⊢
+  repeat' split at h
+  all_goals simp_all
+  · rename_i h1
+    cases hb : anyOpen d.comment (c :: cs') 0
+    · rfl
+    · rw [anyOpen_transfer d.comment (comment_sub d) hl hb] at h; cases h
+  · rename_i h1 h2
+    cases hb : anyOpen d.quote (c :: cs') 0
+    · rfl
+    · rw [anyOpen_transfer d.quote (quote_sub d) hl hb] at h; cases h
+
+theorem analyzeGo_transfer {d : TokenDef} {s s' : Str} {dom : Nat}
+    (hf : ∀ y, analyzer d y s 0 = .ok false → analyzer d y s' 0 = .ok false)
+    (ht : analyzer d dom s' 0 = .ok true) : ∀ (order : List Nat),
+    analyzeGo d s 0 order = .ok dom → analyzeGo d s' 0 order = .ok dom
+  | [], h => by cases h
+  | y :: rest, h => by
+    unfold analyzeGo at h ⊢
+    cases ha : analyzer d y s 0 with
+    | error e => rw [ha] at h; cases h
+    | ok b =>
+      rw [ha] at h
+      simp only [bind, Except.bind] at h ⊢
+      cases b with
+      | true =>
+        simp only [↓reduceIte, pure, Except.pure, Except.ok.injEq] at h
+        subst h
+        rw [ht]; rfl
+      | false =>
+        simp only [Bool.false_eq_true, ↓reduceIte] at h
+        rw [hf y ha]
+        simp only [Bool.false_eq_true, ↓reduceIte]
+        exact analyzeGo_transfer hf ht rest h
+
+/-- the first matching pair stays the first matching pair, when its opener lies inside `x` -/
+theorem firstOpen_transfer {d : TokenDef} {x r r' : Str} (pairs : List (Str × Str)) (hsub : ∀ p ∈ pairs, p.1 ∈ lookPats d)
+    (hl : LookOK d (x ++ r) (x ++ r')) {p0 : Str × Str} (h : firstOpen pairs (x ++ r) 0 = .ok p0) (hlen : p0.1.length ≤ x.length) :
+    firstOpen pairs (x ++ r') 0 = .ok p0 := by
+  unfold firstOpen at h ⊢
+  induction pairs with
+  | nil => simp at h
+  | cons q qs ih =>
+    simp only [List.find?_cons, startsWithAt_zero] at h ⊢
+    by_cases hq : Str.startsWith (x ++ r) q.1 = true
+    · simp only [hq] at h
+      injection h with h; subst h
+      have : Str.startsWith (x ++ r') q.1 = true := by
+        rw [startsWith_left x r' q.1 hlen, ← startsWith_left x r q.1 hlen]; exact hq
+      simp [this]
+    · have hq' : Str.startsWith (x ++ r') q.1 = false := by
+        cases hb : Str.startsWith (x ++ r') q.1
+        · rfl
+        · exact absurd (hl q.1 (hsub q (by simp)) hb) hq
+      simp only [Bool.not_eq_true] at hq
+      simp only [hq, hq'] at h ⊢
+      exact ih (fun p hp => hsub p (by simp [hp])) h
+
+theorem viewR_ok {n e : Nat} {t : Token} : viewR n (.ok (e, t)) = .ok (e - n, t.type, t.string) := rfl
+
+theorem parseWhiteSpace_stable (d : TokenDef) (x r r' : Str) (t : Token)
+    (h : parseWhiteSpace d (x ++ r) 0 = .ok (x.length, t)) (hh : headIn d.whiteSpace r' = true → headIn d.whiteSpace r = true) :
+    viewR 0 (parseWhiteSpace d (x ++ r') 0) = .ok (x.length, t.type, t.string) := by
+  have hspan : spanLen d.whiteSpace (x ++ r) 0 = x.length := by
+    unfold parseWhiteSpace at h
+    simp only [] at h
+    repeat' split at h
+    all_goals (injection h with h; injection h with h1 _; omega)
+  obtain ⟨hx, hr⟩ := (spanLen_prefix_iff _ _ _).mp hspan
+  have hr' : headIn d.whiteSpace r' = false := by
+    cases hb : headIn d.whiteSpace r'
+    · rfl
+    · rw [hh hb] at hr; cases hr
+  have hspan' : spanLen d.whiteSpace (x ++ r') 0 = x.length := (spanLen_prefix_iff _ _ _).mpr ⟨hx, hr'⟩
+  unfold parseWhiteSpace at h ⊢
+  simp only [hspan, hspan', Nat.zero_add, slice_left_all] at h ⊢
+  repeat' split at h
+  all_goals (injection h with h; injection h with _ h2; subst h2; simp_all [viewR, Except.map])
+
+theorem parseNumber_stable (d : TokenDef) (x r r' : Str) (t : Token)
+    (h : parseNumber d (x ++ r) 0 = .ok (x.length, t)) (hh : headIn d.number r' = true → headIn d.number r = true) :
+    viewR 0 (parseNumber d (x ++ r') 0) = .ok (x.length, t.type, t.string) := by
+  have hspan : spanLen d.number (x ++ r) 0 = x.length := by
+    unfold parseNumber at h
+    injection h with h; injection h with h1 _; omega
+  obtain ⟨hx, hr⟩ := (spanLen_prefix_iff _ _ _).mp hspan
+  have hr' : headIn d.number r' = false := by
+    cases hb : headIn d.number r'
+    · rfl
+    · rw [hh hb] at hr; cases hr
+  have hspan' : spanLen d.number (x ++ r') 0 = x.length := (spanLen_prefix_iff _ _ _).mpr ⟨hx, hr'⟩
+  unfold parseNumber at h ⊢
+  simp only [hspan, hspan', Nat.zero_add, slice_left_all] at h ⊢
+  injection h with h; injection h with _ h2; subst h2
+  simp [viewR, Except.map]
+
+theorem parseIdentifier_stable (d : TokenDef) (x r r' : Str) (t : Token)
+    (h : parseIdentifier d (x ++ r) 0 = .ok (x.length, t)) (hh : headIn d.identifier r' = true → headIn d.identifier r = true) :
+    viewR 0 (parseIdentifier d (x ++ r') 0) = .ok (x.length, t.type, t.string) := by
+  have hspan : spanLen d.identifier (x ++ r) 0 = x.length := by
+    unfold parseIdentifier at h
+    injection h with h; injection h with h1 _; omega
+  obtain ⟨hx, hr⟩ := (spanLen_prefix_iff _ _ _).mp hspan
+  have hr' : headIn d.identifier r' = false := by
+    cases hb : headIn d.identifier r'
+    · rfl
+    · rw [hh hb] at hr; cases hr
+  have hspan' : spanLen d.identifier (x ++ r') 0 = x.length := (spanLen_prefix_iff _ _ _).mpr ⟨hx, hr'⟩
+  unfold parseIdentifier at h ⊢
+  simp only [hspan, hspan', Nat.zero_add, slice_left_all] at h ⊢
+  injection h with h; injection h with _ h2; subst h2
+  simp [viewR, Except.map]
+
+def nlOrEnd : Str → Bool
+  | [] => true
+  | c :: _ => c = '\n'
+
+theorem wfLayout_comment {d : TokenDef} (hw : wfLayout d = true) {p : Str × Str} (hp : p ∈ d.comment) : p.2 = ['\n'] := by
+  simp only [wfLayout, Bool.and_eq_true, List.all_eq_true, beq_iff_eq] at hw
+  exact (hw.1.1.1.1 p hp).1
+
+theorem parseComment_stable (d : TokenDef) (hw : wfLayout d = true) (x r r' : Str) (t : Token)
+    (h : parseComment d (x ++ r) 0 = .ok (x.length, t)) (hl : LookOK d (x ++ r) (x ++ r')) (hn : nlOrEnd r' = true) :
+    viewR 0 (parseComment d (x ++ r') 0) = .ok (x.length, t.type, t.string) := by
+  unfold parseComment at h
+  cases hf : firstOpen d.comment (x ++ r) 0 with
+  | error e => rw [hf] at h; cases h
+  | ok p0 =>
+    rw [hf] at h
+    obtain ⟨hmem, hs⟩ := firstOpen_ok hf
+    have hclose := wfLayout_comment hw hmem
+    have hbound := startsWithAt_bound hs
+    simp only [bind, Except.bind, hclose, ↓reduceIte, Nat.zero_add, Nat.add_zero] at h
+    -- the opener lies inside x, and x has no newline after it
+    have key : p0.1.length ≤ x.length ∧ '\n' ∉ x.drop p0.1.length ∧ t.type = T.comment ∧ t.string = x := by
+      cases hfind : findFrom (x ++ r) ['\n'] p0.1.length with
+      | some idx =>
+        rw [hfind] at h
+        simp only [pure, Except.pure, Except.ok.injEq, Prod.mk.injEq] at h
+        obtain ⟨h1, h2⟩ := h
+        subst h1
+        have hb := findFrom_bound hfind
+        refine ⟨hb.1, ?_, by rw [← h2], by rw [← h2]; exact slice_left_all x r⟩
+        unfold findFrom at hfind
+        simp only [show p0.1.length ≤ (x ++ r).length from by simp; omega, ↓reduceIte] at hfind
+        rw [List.drop_append_of_le_length hb.1] at hfind
+        cases hfs : findSub ['\n'] (x.drop p0.1.length ++ r) with
+        | none => rw [hfs] at hfind; cases hfind
+        | some j =>
+          rw [hfs] at hfind
+          simp only [Option.map_some, Option.some.injEq] at hfind
+          have hj : j = (x.drop p0.1.length).length := by simp; omega
+          have := (findSub_single_some '\n' _ j hfs).1
+          rw [hj, List.take_left'] at this
+          · exact this
+          · rfl
+      | none =>
+        rw [hfind] at h
+        simp only [pure, Except.pure, Except.ok.injEq, Prod.mk.injEq] at h
+        obtain ⟨h1, h2⟩ := h
+        have hr : r = [] := by
+          simp only [List.length_append] at h1
+          exact List.eq_nil_of_length_eq_zero (by omega)
+        subst hr
+        rw [List.append_nil] at hfind h2 hbound
+        refine ⟨by omega, ?_, by rw [← h2], by rw [← h2]; simp [slice]⟩
+        unfold findFrom at hfind
+        have hb2 : p0.1.length ≤ x.length := by omega
+        simp only [hb2, ↓reduceIte] at hfind
+        cases hfs : findSub ['\n'] (x.drop p0.1.length) with
+        | none => exact findSub_single_none_iff '\n' _ hfs
+        | some j => rw [hfs] at hfind; cases hfind
+    obtain ⟨hk, hnl, hty, hstr⟩ := key
+    have hf' := firstOpen_transfer d.comment (comment_sub d) hl hf hk
+    unfold parseComment
+    rw [hf']
+    simp only [bind, Except.bind, hclose, ↓reduceIte, Nat.zero_add, Nat.add_zero]
+    have hfind' : findFrom (x ++ r') ['\n'] p0.1.length = if r' = [] then none else some x.length := by
+      unfold findFrom
+      simp only [show p0.1.length ≤ (x ++ r').length from by simp; omega, ↓reduceIte]
+      rw [List.drop_append_of_le_length hk]
+      cases r' with
+      | nil =>
+        simp only [List.append_nil, ↓reduceIte]
+        rw [findSub_single_none '\n' _ hnl]; rfl
+      | cons c cs =>
+        have hc : c = '\n' := by simpa [nlOrEnd] using hn
+        subst hc
+        rw [findSub_single_at '\n' _ cs hnl]
+        simp; omega
+    rw [hfind']
+    by_cases hr' : r' = []
+    · subst hr'
+      simp [viewR, Except.map, pure, Except.pure, hty, hstr, slice]
+    · simp only [hr', ↓reduceIte, pure, Except.pure, viewR, Except.map, slice_left_all, hty, hstr]
+      simp
+
+theorem quoteLoopC_fuel_indep {src close : Str} (hc : 0 < close.length) (body : Nat) : ∀ (fuel fuel' e : Nat),
+    src.length - e ≤ fuel → src.length - e ≤ fuel' → quoteLoopC src close body fuel e = quoteLoopC src close body fuel' e
+  | fuel, fuel', e, h, h' => by
+    unfold quoteLoopC
+    split
+    · rename_i hlt
+      cases fuel with
+      | zero => omega
+      | succ f =>
+        cases fuel' with
+        | zero => omega
+        | succ f' =>
+          simp only []
+          cases hf : findFrom src close e with
+          | none => rfl
+          | some idx =>
+            have hb := findFrom_bound hf
+            simp only []
+            split
+            · exact quoteLoopC_fuel_indep hc body f f' (idx + 1) (by omega) (by omega)
+            · rfl
+    · rfl
+
+/-- ghost: the string literal at the start of `s` is terminated (its quote loop ends on an unescaped closing sequence) -/
+def quoteClosed (d : TokenDef) (s : Str) : Bool :=
+  match firstOpen d.quote s 0 with
+  | .ok p => quoteLoopC s p.2 p.1.length s.length p.1.length
+  | .error _ => false
+
+theorem parseQuote_stable (d : TokenDef) (hw : wf d = true) (x r r' : Str) (t : Token)
+    (h : parseQuote d (x ++ r) 0 = .ok (x.length, t)) (hcl : quoteClosed d (x ++ r) = true)
+    (hl : LookOK d (x ++ r) (x ++ r')) :
+    viewR 0 (parseQuote d (x ++ r') 0) = .ok (x.length, t.type, t.string) := by
+  unfold parseQuote at h
+  unfold quoteClosed at hcl
+  cases hf : firstOpen d.quote (x ++ r) 0 with
+  | error e => rw [hf] at h; cases h
+  | ok p0 =>
+    rw [hf] at h hcl
+    obtain ⟨hmem, hs⟩ := firstOpen_ok hf
+    have hlen := wf_quote hw hmem
+    have hbound := startsWithAt_bound hs
+    simp only [bind, Except.bind, Nat.zero_add] at h hcl
+    cases hq : quoteLoop (x ++ r) p0.2 p0.1.length (x ++ r).length p0.1.length with
+    | error e => rw [hq] at h; cases h
+    | ok e =>
+      rw [hq] at h
+      simp only [] at h
+      split at h
+      · cases h
+      · rename_i c cs hv
+        simp only [pure, Except.pure, Except.ok.injEq, Prod.mk.injEq] at h
+        obtain ⟨he, ht⟩ := h
+        subst he
+        have hge := quoteLoop_closed_ge _ _ _ _ _ _ hq hcl
+        have hk : p0.1.length ≤ x.length := by omega
+        have hf' := firstOpen_transfer d.quote (quote_sub d) hl hf hk
+        -- align the fuels, move to `x ++ r'`, align back
+        let F := x.length + r.length + r'.length
+        have q1 : quoteLoop (x ++ r) p0.2 p0.1.length F p0.1.length = .ok x.length := by
+          rw [← hq]; apply quoteLoop_fuel_indep hlen.2 <;> simp [F] <;> omega
+        have c1 : quoteLoopC (x ++ r) p0.2 p0.1.length F p0.1.length = true := by
+          rw [← hcl]; apply quoteLoopC_fuel_indep hlen.2 <;> simp [F] <;> omega
+        have q2 := quoteLoop_left x r r' p0.2 p0.1.length hlen.2 F p0.1.length hk q1 c1
+        have q3 : quoteLoop (x ++ r') p0.2 p0.1.length (x ++ r').length p0.1.length = .ok x.length := by
+          rw [← q2]; apply quoteLoop_fuel_indep hlen.2 <;> simp [F] <;> omega
+        unfold parseQuote
+        rw [hf']
+        simp only [bind, Except.bind, Nat.zero_add, q3, slice_left_all]
+        rw [slice_left_all] at hv ht
+        subst hv
+        simp [pure, Except.pure, viewR, Except.map, ← ht]
+
+def wsOrEnd (a : Str) : Str → Bool
+  | [] => true
+  | c :: _ => a.contains c
+
+def viewC (r : Except Err (Option (Nat × Token))) : Except Err (Option (Nat × Nat × Str)) :=
+  r.map (Option.map (fun y => (y.1, y.2.type, y.2.string)))
+
+theorem combined_sub (d : TokenDef) : ∀ p ∈ d.combinedSymbols, p ∈ lookPats d := by
+  intro p hp; simp only [lookPats, List.mem_append]; exact Or.inr hp
+
+theorem indexOf?_mem {α : Type} [DecidableEq α] (x : α) (l : List α) (i : Nat) (h : indexOf? x l = some i) : x ∈ l :=
+  List.mem_of_getElem? (indexOf?_getElem? x l i h)
+
+/-- a combined-symbol probe no longer than `x` sees the same text -/
+theorem combined_stable_le (d : TokenDef) (x r r' : Str) (w : Nat) (hw : w ≤ x.length) (hpos : 0 < w) :
+    viewC (combined d (x ++ r') 0 w) = viewC (combined d (x ++ r) 0 w) := by
+  unfold combined
+  simp only [Nat.zero_add]
+  have g1 : ¬ (w - 1 ≥ (x ++ r).length) := by simp; omega
+  have g2 : ¬ (w - 1 ≥ (x ++ r').length) := by simp; omega
+  simp only [g1, g2, ↓reduceIte, slice_left x r w hw, slice_left x r' w hw]
+  split
+  · rfl
+  · rename_i off _
+    cases typeOf d (T.beginCombine + off) <;> simp [viewC, bind, Except.bind, pure, Except.pure, Except.map]
+
+/-- a probe that found nothing on `s` finds nothing on `s'` -/
+theorem combined_none_transfer (d : TokenDef) (s s' : Str) (w : Nat) (hpos : 0 < w) (hl : LookOK d s s')
+    (h : combined d s 0 w = .ok none) : combined d s' 0 w = .ok none := by
+  unfold combined at h ⊢
+  simp only [Nat.zero_add] at h ⊢
+  by_cases g' : w - 1 ≥ s'.length
+  · simp [g']
+  · simp only [g', ↓reduceIte]
+    cases hi : indexOf? (slice s' 0 w) d.combinedSymbols with
+    | none => rfl
+    | some off =>
+      exfalso
+      have hmem := indexOf?_mem _ _ _ hi
+      have hlen : (slice s' 0 w).length = w := by rw [slice_zero]; simp; omega
+      have hst : Str.startsWith s' (slice s' 0 w) = true := by
+        rw [startsWith_iff_prefix]; exact ⟨s'.drop w, by rw [slice_zero]; exact (List.take_append_drop w s').symm⟩
+      have hs := hl _ (combined_sub d _ hmem) hst
+      have htake := startsWith_take _ _ hs
+      have hlen2 := startsWith_length _ _ hs
+      rw [hlen] at htake hlen2
+      have g : ¬ (w - 1 ≥ s.length) := by omega
+      simp only [g, ↓reduceIte, slice_zero, htake] at h
+      rw [← slice_zero, hi] at h
+      simp only [] at h
+      cases hty : typeOf d (T.beginCombine + off) with
+      | error e => rw [hty] at h; cases h
+      | ok ty => rw [hty] at h; simp [bind, Except.bind, pure, Except.pure] at h
+
+theorem combined_end {d : TokenDef} {s : Str} {w e : Nat} {t : Token} (h : combined d s 0 w = .ok (some (e, t))) : e = w := by
+  unfold combined at h
+  simp only [Nat.zero_add] at h
+  split at h
+  · cases h
+  · split at h
+    · cases h
+    · rename_i off _
+      cases hty : typeOf d (T.beginCombine + off) with
+      | error er => rw [hty] at h; cases h
+      | ok ty =>
+        rw [hty] at h
+        simp only [bind, Except.bind, pure, Except.pure, Except.ok.injEq, Option.some.injEq, Prod.mk.injEq] at h
+        exact h.1.symm
+
+theorem viewC_some {a b : Except Err (Option (Nat × Token))} {e : Nat} {t : Token} (h : viewC a = viewC b) (hb : b = .ok (some (e, t))) :
+    ∃ t', a = .ok (some (e, t')) ∧ t'.type = t.type ∧ t'.string = t.string := by
+  subst hb
+  cases a with
+  | error er => simp [viewC, Except.map] at h
+  | ok o =>
+    cases o with
+    | none => simp [viewC, Except.map] at h
+    | some y =>
+      simp only [viewC, Except.map, Option.map_some, Except.ok.injEq, Option.some.injEq, Prod.mk.injEq] at h
+      obtain ⟨h1, h2, h3⟩ := h
+      exact ⟨y.2, by rw [← h1], h2, h3⟩
+
+/-- the unary/binary decision of `parse_symbol` for a single-character token at the start of `s` -/
+def minusTail (d : TokenDef) (c : Char) (ty : Nat) (s : Str) : Except Err (Nat × Token) :=
+  if 1 < s.length then
+    Except.bind (charIn d.whiteSpace s 1) (fun ws =>
+      if (!ws) = true then pure (1, Token.opUnaryMinus (mkMap s 0 1)) else pure (1, ⟨ty, [c], mkMap s 0 1⟩))
+  else pure (1, ⟨ty, [c], mkMap s 0 1⟩)
+
+theorem minus_view (d : TokenDef) (c : Char) (ty : Nat) (r : Str) :
+    viewR 0 (minusTail d c ty (c :: r))
+      = .ok (1, if wsOrEnd d.whiteSpace r = true then (ty, [c]) else (T.minus, Special.opUnaryMinus)) := by
+  unfold minusTail
+  cases r with
+  | nil => simp [viewR, Except.map, pure, Except.pure, wsOrEnd]
+  | cons a rest =>
+    have : charIn d.whiteSpace (c :: a :: rest) 1 = .ok (d.whiteSpace.contains a) := by
+      simp [charIn, charAt, bind, Except.bind, pure, Except.pure]
+    simp only [List.length_cons, this, wsOrEnd, Except.bind]
+    by_cases hb : a ∈ d.whiteSpace
+    · simp [hb, viewR, Except.map, pure, Except.pure]
+    · simp [hb, viewR, Except.map, pure, Except.pure, Token.opUnaryMinus]
+
+theorem parseSymbol_stable (d : TokenDef) (x r r' : Str) (t : Token)
+    (h : parseSymbol d (x ++ r) 0 = .ok (x.length, t)) (hl : LookOK d (x ++ r) (x ++ r'))
+    (hm : t.type = T.minus → wsOrEnd d.whiteSpace r = wsOrEnd d.whiteSpace r') :
+    viewR 0 (parseSymbol d (x ++ r') 0) = .ok (x.length, t.type, t.string) := by
+  unfold parseSymbol at h
+  cases h3 : combined d (x ++ r) 0 3 with
+  | error er => rw [h3] at h; cases h
+  | ok r3 =>
+    rw [h3] at h
+    simp only [bind, Except.bind] at h
+    cases r3 with
+    | some res =>
+      simp only [pure, Except.pure, Except.ok.injEq] at h
+      subst h
+      have he := combined_end h3
+      obtain ⟨t', h3', e1, e2⟩ := viewC_some (combined_stable_le d x r r' 3 (by omega) (by omega)) h3
+      unfold parseSymbol
+      rw [h3']
+      simp [bind, Except.bind, pure, Except.pure, viewR, Except.map, e1, e2]
+    | none =>
+      simp only [] at h
+      have h3' := combined_none_transfer d _ _ 3 (by omega) hl h3
+      cases h2 : combined d (x ++ r) 0 2 with
+      | error er => rw [h2] at h; cases h
+      | ok r2 =>
+        rw [h2] at h
+        cases r2 with
+        | some res =>
+          simp only [pure, Except.pure, Except.ok.injEq] at h
+          subst h
+          have he := combined_end h2
+          obtain ⟨t', h2', e1, e2⟩ := viewC_some (combined_stable_le d x r r' 2 (by omega) (by omega)) h2
+          unfold parseSymbol
+          rw [h3']
+          simp only [bind, Except.bind, h2']
+          simp [pure, Except.pure, viewR, Except.map, e1, e2]
+        | none =>
+          simp only [] at h
+          have h2' := combined_none_transfer d _ _ 2 (by omega) hl h2
+          unfold parseSymbol
+          rw [h3']
+          simp only [bind, Except.bind, h2']
+          -- the single-character path: x is one character
+          cases x with
+          | nil =>
+            exfalso
+            cases hv : charAt ([] ++ r) 0 with
+            | error er => rw [hv] at h; cases h
+            | ok value =>
+              rw [hv] at h
+              simp only [] at h
+              repeat' split at h
+              all_goals first | cases h | (cases hw : charIn d.whiteSpace ([] ++ r) (0 + 1) <;> rw [hw] at h <;> simp at h <;> try (split at h <;> simp [pure, Except.pure] at h)) | simp [pure, Except.pure] at h
+          | cons c cs =>
+            have hv : ∀ rr : Str, charAt (c :: cs ++ rr) 0 = .ok c := fun rr => by simp [charAt]
+            rw [hv] at h
+            simp only [hv]
+            simp only [] at h ⊢
+            cases hi : indexOf? c d.symbol with
+            | none => rw [hi] at h; cases h
+            | some off =>
+              rw [hi] at h
+              simp only [] at h ⊢
+              cases hty : typeOf d (Dom.symbol * 16 + off) with
+              | error er => rw [hty] at h; cases h
+              | ok ty =>
+                rw [hty] at h
+                simp only [Nat.zero_add] at h ⊢
+                have hcs : cs = [] := by
+                  have : (c :: cs).length = 1 := by
+                    repeat' split at h
+                    all_goals first
+                      | (simp only [pure, Except.pure, Except.ok.injEq, Prod.mk.injEq] at h; exact h.1.symm)
+                      | cases h
+                  simpa using this
+                subst hcs
+                simp only [List.singleton_append] at h ⊢
+                by_cases hmin : ty = T.minus
+                · simp only [hmin, ↓reduceIte] at h ⊢
+                  have h' : minusTail d c T.minus (c :: r) = .ok ([c].length, t) := h
+                  show viewR 0 (minusTail d c T.minus (c :: r')) = _
+                  have hview := congrArg (viewR 0) h'
+                  rw [minus_view] at hview ⊢
+                  simp only [viewR, Except.map, Except.ok.injEq, Prod.mk.injEq, List.length_cons, List.length_nil, Nat.zero_add,
+                    Nat.sub_zero, true_and] at hview
+                  have htm : t.type = T.minus := by
+                    have := congrArg Prod.fst hview
+                    simp only [] at this
+                    rw [← this]; split <;> rfl
+                  rw [← hm htm]
+                  simp only [List.length_cons, List.length_nil, Nat.zero_add]
+                  rw [hview]
+                · simp only [hmin, ↓reduceIte] at h ⊢
+                  simp only [pure, Except.pure, Except.ok.injEq, Prod.mk.injEq] at h
+                  simp [viewR, Except.map, pure, Except.pure, ← h.2]
+
+theorem parseComment_open {d : TokenDef} {s : Str} {e : Nat} {t : Token} (h : parseComment d s 0 = .ok (e, t)) :
+    ∃ p0, firstOpen d.comment s 0 = .ok p0 ∧ p0.1.length ≤ e := by
+  unfold parseComment at h
+  cases hf : firstOpen d.comment s 0 with
+  | error er => rw [hf] at h; cases h
+  | ok p0 =>
+    rw [hf] at h
+    obtain ⟨_, hs⟩ := firstOpen_ok hf
+    have hb := startsWithAt_bound hs
+    refine ⟨p0, rfl, ?_⟩
+    simp only [bind, Except.bind, Nat.zero_add] at h
+    split at h
+    · rename_i idx hfind
+      have := findFrom_bound hfind
+      simp only [pure, Except.pure, Except.ok.injEq, Prod.mk.injEq] at h
+      omega
+    · simp only [pure, Except.pure, Except.ok.injEq, Prod.mk.injEq] at h
+      omega
+
+theorem parseQuote_open {d : TokenDef} (hw : wf d = true) {s : Str} {e : Nat} {t : Token} (h : parseQuote d s 0 = .ok (e, t)) :
+    ∃ p0, firstOpen d.quote s 0 = .ok p0 ∧ p0.1.length ≤ e := by
+  unfold parseQuote at h
+  cases hf : firstOpen d.quote s 0 with
+  | error er => rw [hf] at h; cases h
+  | ok p0 =>
+    rw [hf] at h
+    obtain ⟨hmem, hs⟩ := firstOpen_ok hf
+    have hb := startsWithAt_bound hs
+    have hlen := wf_quote hw hmem
+    refine ⟨p0, rfl, ?_⟩
+    obtain ⟨e', hq, h1, _⟩ := quoteLoop_ok (src := s) hlen.2 (0 + p0.1.length) s.length (0 + p0.1.length) hb (by omega)
+    simp only [bind, Except.bind, hq] at h
+    split at h
+    · cases h
+    · simp only [pure, Except.pure, Except.ok.injEq, Prod.mk.injEq] at h
+      omega
+
+/-- what the continuation must preserve for the token kind that was dispatched -/
+structure HeadOK (d : TokenDef) (dom : Nat) (t : Token) (r r' : Str) : Prop where
+  ws : dom = Dom.whiteSpace → headIn d.whiteSpace r' = true → headIn d.whiteSpace r = true
+  num : dom = Dom.number → headIn d.number r' = true → headIn d.number r = true
+  ident : dom = Dom.identifier → headIn d.identifier r' = true → headIn d.identifier r = true
+  comment : dom = Dom.comment → nlOrEnd r' = true
+  minus : t.type = T.minus → wsOrEnd d.whiteSpace r = wsOrEnd d.whiteSpace r'
+
+/-- **Stability of the first token.** If the lexer reads the token `x` at the start of `x ++ r`, it reads the same token
+    (up to the source map) at the start of `x ++ r'`, provided no look-ahead pattern newly matches, the character after
+    the token keeps the role it had for this kind of token, and a string literal is terminated. -/
+theorem step_stable {d : TokenDef} (hw : wf d = true) (hwl : wfLayout d = true) (x r r' : Str) (hx : x ≠ []) {dom : Nat} {t : Token}
+    (hd : analyzeDomain d (x ++ r) 0 = .ok dom) (hp : parser d dom (x ++ r) 0 = .ok (x.length, t))
+    (hl : LookOK d (x ++ r) (x ++ r')) (hh : HeadOK d dom t r r') (hq : dom = Dom.quote → quoteClosed d (x ++ r) = true) :
+    analyzeDomain d (x ++ r') 0 = .ok dom ∧ viewR 0 (parser d dom (x ++ r') 0) = .ok (x.length, t.type, t.string) := by
+  obtain ⟨c, cs, rfl⟩ : ∃ c cs, x = c :: cs := by
+    cases x with
+    | nil => exact absurd rfl hx
+    | cons c cs => exact ⟨c, cs, rfl⟩
+  have ha := analyzeGo_sound _ _ hd
+  have hgo : ∀ (ht : analyzer d dom (c :: cs ++ r') 0 = .ok true), analyzeDomain d (c :: cs ++ r') 0 = .ok dom :=
+    fun ht => analyzeGo_transfer (fun y => analyzer_false_transfer hl y) ht _ hd
+  have hclass : ∀ a : Str, charIn a (c :: cs ++ r) 0 = .ok true → charIn a (c :: cs ++ r') 0 = .ok true := by
+    intro a h; simpa only [List.cons_append, charIn_zero] using h
+  unfold parser at hp ⊢
+  unfold analyzer at ha
+  by_cases h0 : dom = Dom.whiteSpace
+  · simp only [h0, ↓reduceIte] at hp ha ⊢
+    exact ⟨h0 ▸ hgo (by rw [h0]; unfold analyzer; simp only [↓reduceIte]; exact hclass _ ha),
+      parseWhiteSpace_stable d _ r r' t hp (hh.ws h0)⟩
+  · simp only [h0, ↓reduceIte] at hp ha ⊢
+    by_cases h1 : dom = Dom.comment
+    · simp only [h1, ↓reduceIte] at hp ha ⊢
+      refine ⟨h1 ▸ hgo ?_, parseComment_stable d hwl _ r r' t hp hl (hh.comment h1)⟩
+      rw [h1]; unfold analyzer
+      simp only [show ¬ Dom.comment = Dom.whiteSpace from by decide, ↓reduceIte]
+      obtain ⟨p0, hf, hk⟩ := parseComment_open hp
+      have hf' := firstOpen_transfer (x := c :: cs) d.comment (comment_sub d) hl hf hk
+      obtain ⟨hm, hs⟩ := firstOpen_ok hf'
+      have : anyOpen d.comment (c :: cs ++ r') 0 = true := by
+        simp only [anyOpen, List.any_eq_true]; exact ⟨p0, hm, hs⟩
+      rw [this]
+    · simp only [h1, ↓reduceIte] at hp ha ⊢
+      by_cases h2 : dom = Dom.quote
+      · simp only [h2, ↓reduceIte] at hp ha ⊢
+        refine ⟨h2 ▸ hgo ?_, parseQuote_stable d hw _ r r' t hp (hq h2) hl⟩
+        rw [h2]; unfold analyzer
+        simp only [show ¬ Dom.quote = Dom.whiteSpace from by decide, show ¬ Dom.quote = Dom.comment from by decide, ↓reduceIte]
+        obtain ⟨p0, hf, hk⟩ := parseQuote_open hw hp
+        have hf' := firstOpen_transfer (x := c :: cs) d.quote (quote_sub d) hl hf hk
+        obtain ⟨hm, hs⟩ := firstOpen_ok hf'
+        have : anyOpen d.quote (c :: cs ++ r') 0 = true := by
+          simp only [anyOpen, List.any_eq_true]; exact ⟨p0, hm, hs⟩
+        rw [this]
+      · simp only [h2, ↓reduceIte] at hp ha ⊢
+        by_cases h3 : dom = Dom.number
+        · simp only [h3, ↓reduceIte] at hp ha ⊢
+          refine ⟨h3 ▸ hgo ?_, parseNumber_stable d _ r r' t hp (hh.num h3)⟩
+          rw [h3]; unfold analyzer
+          simp only [show ¬ Dom.number = Dom.whiteSpace from by decide, show ¬ Dom.number = Dom.comment from by decide,
+            show ¬ Dom.number = Dom.quote from by decide, ↓reduceIte]
+          exact hclass _ ha
+        · simp only [h3, ↓reduceIte] at hp ha ⊢
+          by_cases h4 : dom = Dom.identifier
+          · simp only [h4, ↓reduceIte] at hp ha ⊢
+            refine ⟨h4 ▸ hgo ?_, parseIdentifier_stable d _ r r' t hp (hh.ident h4)⟩
+            rw [h4]; unfold analyzer
+            simp only [show ¬ Dom.identifier = Dom.whiteSpace from by decide, show ¬ Dom.identifier = Dom.comment from by decide,
+              show ¬ Dom.identifier = Dom.quote from by decide, show ¬ Dom.identifier = Dom.number from by decide, ↓reduceIte]
+            exact hclass _ ha
+          · simp only [h4, ↓reduceIte] at hp ha ⊢
+            by_cases h5 : dom = Dom.symbol
+            · simp only [h5, ↓reduceIte] at hp ha ⊢
+              refine ⟨h5 ▸ hgo ?_, parseSymbol_stable d _ r r' t hp hl hh.minus⟩
+              rw [h5]; unfold analyzer
+              simp only [show ¬ Dom.symbol = Dom.whiteSpace from by decide, show ¬ Dom.symbol = Dom.comment from by decide,
+                show ¬ Dom.symbol = Dom.quote from by decide, show ¬ Dom.symbol = Dom.number from by decide,
+                show ¬ Dom.symbol = Dom.identifier from by decide, ↓reduceIte]
+              exact hclass _ ha
+            · simp only [h5, ↓reduceIte] at hp
+              cases hp
+
+/-! ### a prefix of whole tokens is lexed the same when the rest changes -/
+
+theorem parseComment_nl {d : TokenDef} (hwl : wfLayout d = true) {x r : Str} {t : Token}
+    (h : parseComment d (x ++ r) 0 = .ok (x.length, t)) : nlOrEnd r = true := by
+  unfold parseComment at h
+  cases hf : firstOpen d.comment (x ++ r) 0 with
+  | error e => rw [hf] at h; cases h
+  | ok p0 =>
+    rw [hf] at h
+    obtain ⟨hmem, hs⟩ := firstOpen_ok hf
+    have hclose := wfLayout_comment hwl hmem
+    simp only [bind, Except.bind, hclose, ↓reduceIte, Nat.zero_add, Nat.add_zero] at h
+    cases hfind : findFrom (x ++ r) ['\n'] p0.1.length with
+    | some idx =>
+      rw [hfind] at h
+      simp only [pure, Except.pure, Except.ok.injEq, Prod.mk.injEq] at h
+      have hidx : idx = x.length := h.1
+      subst hidx
+      have hb := findFrom_bound hfind
+      unfold findFrom at hfind
+      simp only [show p0.1.length ≤ (x ++ r).length from by simp; omega, ↓reduceIte] at hfind
+      rw [List.drop_append_of_le_length hb.1] at hfind
+      cases hfs : findSub ['\n'] (x.drop p0.1.length ++ r) with
+      | none => rw [hfs] at hfind; cases hfind
+      | some j =>
+        rw [hfs] at hfind
+        simp only [Option.map_some, Option.some.injEq] at hfind
+        have hj : j = (x.drop p0.1.length).length := by simp; omega
+        have := (findSub_single_some '\n' _ j hfs).2
+        rw [hj, List.getElem?_append_right (Nat.le_refl _)] at this
+        simp only [Nat.sub_self] at this
+        cases r with
+        | nil => simp at this
+        | cons c cs => simp at this; simp [nlOrEnd, this]
+    | none =>
+      rw [hfind] at h
+      simp only [pure, Except.pure, Except.ok.injEq, Prod.mk.injEq] at h
+      have hr : r = [] := by
+        have h1 := h.1
+        simp only [List.length_append] at h1
+        exact List.eq_nil_of_length_eq_zero (by omega)
+      subst hr; rfl
+
+theorem headIn_append_of_ne (a c r : Str) (hc : c ≠ []) : headIn a (c ++ r) = headIn a c := by
+  cases c with
+  | nil => exact absurd rfl hc
+  | cons x xs => rfl
+
+theorem nlOrEnd_append_of_ne (c r : Str) (hc : c ≠ []) : nlOrEnd (c ++ r) = nlOrEnd c := by
+  cases c with
+  | nil => exact absurd rfl hc
+  | cons x xs => rfl
+
+theorem wsOrEnd_append_of_ne (a c r : Str) (hc : c ≠ []) : wsOrEnd a (c ++ r) = wsOrEnd a c := by
+  cases c with
+  | nil => exact absurd rfl hc
+  | cons x xs => rfl
+
+theorem wfLayout_pats {d : TokenDef} (hwl : wfLayout d = true) : ∀ p ∈ lookPats d, ∀ ch ∈ p, d.whiteSpace.contains ch = false := by
+  simp only [wfLayout, Bool.and_eq_true, List.all_eq_true, blankFree, Bool.not_eq_true'] at hwl
+  obtain ⟨⟨⟨⟨h1, h2⟩, h3⟩, _⟩, _⟩ := hwl
+  intro p hp ch hch
+  simp only [lookPats, List.mem_append, List.mem_map] at hp
+  rcases hp with (⟨q, hq, rfl⟩ | ⟨q, hq, rfl⟩) | hp
+  · exact (h1 q hq).2 ch hch
+  · exact h2 q hq ch hch
+  · exact h3 p hp ch hch
+
+/-- how the continuation may change: after a common part `c` the new text is empty or starts with a white space character -/
+def Compat (d : TokenDef) (r r' : Str) : Prop :=
+  ∃ c r0 r0', r = c ++ r0 ∧ r' = c ++ r0' ∧ (r0' = [] ∨ headIn d.whiteSpace r0' = true)
+
+theorem Compat.lookOK {d : TokenDef} (hwl : wfLayout d = true) {r r' : Str} (hc : Compat d r r') (x : Str) :
+    LookOK d (x ++ r) (x ++ r') := by
+  obtain ⟨c, r0, r0', rfl, rfl, hws⟩ := hc
+  intro p hp hm
+  rw [← List.append_assoc] at hm ⊢
+  exact startsWith_transfer d.whiteSpace x c r0 r0' p (wfLayout_pats hwl p hp) hws hm
+
+/-- prepending a token text keeps compatibility, now with a non-empty common part -/
+theorem Compat.cons {d : TokenDef} {r r' : Str} (hc : Compat d r r') (a : Str) : Compat d (a ++ r) (a ++ r') := by
+  obtain ⟨c, r0, r0', rfl, rfl, hws⟩ := hc
+  exact ⟨a ++ c, r0, r0', by simp, by simp, hws⟩
+
+/-- `a` consists of whole tokens `ta` when `a ++ r` is lexed; every string literal among them is terminated, and the last
+    token tolerates the change of what follows it from `r` to `r'` -/
+inductive TokPrefix (d : TokenDef) (r r' : Str) : Str → List (Nat × Str) → Prop
+  | nil : TokPrefix d r r' [] []
+  | cons {x a : Str} {dom : Nat} {t : Token} {ta : List (Nat × Str)} :
+      x ≠ [] → analyzeDomain d (x ++ (a ++ r)) 0 = .ok dom → parser d dom (x ++ (a ++ r)) 0 = .ok (x.length, t) →
+      (dom = Dom.quote → quoteClosed d (x ++ (a ++ r)) = true) → (a = [] → HeadOK d dom t r r') →
+      TokPrefix d r r' a ta → TokPrefix d r r' (x ++ a) (simplify t :: ta)
+
+theorem step_of {d : TokenDef} {s : Str} {dom e : Nat} {t : Token} (hd : analyzeDomain d s 0 = .ok dom)
+    (hp : parser d dom s 0 = .ok (e, t)) : step d s = .ok (e, t) := by
+  simp [step, hd, hp, bind, Except.bind]
+
+theorem HeadOK_of_ne {d : TokenDef} (hwl : wfLayout d = true) {dom : Nat} {t : Token} {x a r r' : Str} (ha : a ≠ [])
+    (hp : parser d dom (x ++ (a ++ r)) 0 = .ok (x.length, t)) : HeadOK d dom t (a ++ r) (a ++ r') := by
+  refine ⟨?_, ?_, ?_, ?_, ?_⟩
+  · intro _ h; rw [headIn_append_of_ne _ _ _ ha] at h ⊢; exact h
+  · intro _ h; rw [headIn_append_of_ne _ _ _ ha] at h ⊢; exact h
+  · intro _ h; rw [headIn_append_of_ne _ _ _ ha] at h ⊢; exact h
+  · intro hdom
+    have hpc : parseComment d (x ++ (a ++ r)) 0 = .ok (x.length, t) := by
+      unfold parser at hp
+      simp only [hdom, show ¬ Dom.comment = Dom.whiteSpace from by decide, ↓reduceIte] at hp
+      exact hp
+    have := parseComment_nl hwl hpc
+    rw [nlOrEnd_append_of_ne _ _ ha] at this ⊢; exact this
+  · intro _; rw [wsOrEnd_append_of_ne _ _ _ ha, wsOrEnd_append_of_ne _ _ _ ha]
+
+/-- **Prefix congruence.** The whole tokens `a` in front are lexed identically (up to source maps) when what follows them
+    changes compatibly. -/
+theorem lexS_prefix {d : TokenDef} (hw : wf d = true) (hwl : wfLayout d = true) {r r' : Str} (hc : Compat d r r')
+    {a : Str} {ta : List (Nat × Str)} (hp : TokPrefix d r r' a ta) :
+    lexS d (a ++ r) = (lexS d r).map (fun rest => ta ++ rest) ∧ lexS d (a ++ r') = (lexS d r').map (fun rest => ta ++ rest) := by
+  induction hp with
+  | nil =>
+    constructor <;> (simp only [List.nil_append]; cases lexS d _ <;> rfl)
+  | @cons x a dom t ta hx hd hpar hq hnear _ ih =>
+    have hl : LookOK d (x ++ (a ++ r)) (x ++ (a ++ r')) := (hc.cons a).lookOK hwl x
+    have hh : HeadOK d dom t (a ++ r) (a ++ r') := by
+      by_cases ha : a = []
+      · subst ha; simpa using hnear rfl
+      · exact HeadOK_of_ne hwl ha hpar
+    obtain ⟨hd', hv⟩ := step_stable hw hwl x (a ++ r) (a ++ r') hx hd hpar hl hh hq
+    -- the first token on both sides
+    have s1 : step d (x ++ (a ++ r)) = .ok (x.length, t) := step_of hd hpar
+    cases hpar' : parser d dom (x ++ (a ++ r')) 0 with
+    | error e => rw [hpar'] at hv; simp [viewR, Except.map] at hv
+    | ok res =>
+      obtain ⟨e', t'⟩ := res
+      rw [hpar'] at hv
+      simp only [viewR, Except.map, Except.ok.injEq, Prod.mk.injEq, Nat.sub_zero] at hv
+      obtain ⟨he, hty, hstr⟩ := hv
+      subst he
+      have s2 : step d (x ++ (a ++ r')) = .ok (x.length, t') := step_of hd' hpar'
+      have hsim : simplify t' = simplify t := by simp [simplify, hty, hstr]
+      have ne1 : x ++ (a ++ r) ≠ [] := by simp [hx]
+      have ne2 : x ++ (a ++ r') ≠ [] := by simp [hx]
+      have u1 := lexS_unfold hw _ ne1
+      have u2 := lexS_unfold hw _ ne2
+      rw [s1] at u1
+      rw [s2] at u2
+      simp only [List.drop_left] at u1 u2
+      rw [List.append_assoc, List.append_assoc, u1, u2, ih.1, ih.2, hsim]
+      constructor
+      · cases lexS d r <;> simp [Except.map]
+      · cases lexS d r' <;> simp [Except.map]
+
+/-! ### shape of what `parse_impl` returns -/
+
+theorem takeWhile_stop (f : Char → Bool) : ∀ (l : Str) (c : Char), l[(l.takeWhile f).length]? = some c → f c = false
+  | [], c, h => by simp at h
+  | x :: xs, c, h => by
+    cases hx : f x
+    · simp [List.takeWhile, hx] at h; rw [← h]; exact hx
+    · simp only [List.takeWhile, hx, List.length_cons, List.getElem?_cons_succ] at h
+      exact takeWhile_stop f xs c h
+
+theorem spanLen_stop (a s : Str) (i : Nat) (c : Char) (h : s[i + spanLen a s i]? = some c) : a.contains c = false := by
+  unfold spanLen at h
+  have : (s.drop i)[((s.drop i).takeWhile (fun c => a.contains c)).length]? = some c := by
+    rw [List.getElem?_drop]; exact h
+  exact takeWhile_stop _ _ c this
+
+theorem count_pos_mem (c : Char) (s : Str) (h : Str.count c s ≠ 0) : c ∈ s := by
+  unfold Str.count at h
+  have : (s.filter (· = c)) ≠ [] := fun e => h (by rw [e]; rfl)
+  obtain ⟨x, hx⟩ := List.exists_mem_of_ne_nil _ this
+  have := List.mem_filter.mp hx
+  simp only [decide_eq_true_eq] at this
+  rw [← this.2]; exact this.1
+
+/-- what the white-space parser returns -/
+theorem parseWhiteSpace_facts {d : TokenDef} (hw : wf d = true) {src : Str} {i e : Nat} {t : Token}
+    (h : parseWhiteSpace d src i = .ok (e, t)) :
+    e = i + spanLen d.whiteSpace src i ∧ t.string = slice src i e ∧ (isLBt t = true → '\n' ∈ t.string) := by
+  have hbs : '\\' ∉ d.whiteSpace := by simp [wf] at hw; exact hw.1.2
+  have hno : '\\' ∉ slice src i (i + spanLen d.whiteSpace src i) := by
+    intro hm
+    have := spanLen_all d.whiteSpace src i _ hm
+    simp at this; exact hbs this
+  have hz := countSubAux_zero '\\' ['\n'] _ 0 hno
+  unfold parseWhiteSpace at h
+  simp only [hz, Nat.lt_irrefl, ↓reduceIte] at h
+  split at h
+  · injection h with h; injection h with h1 h2; subst h1 h2
+    exact ⟨rfl, rfl, by intro hl; simp [isLBt, T.whiteSpace, T.lineBreak] at hl⟩
+  · rename_i hcnt
+    injection h with h; injection h with h1 h2; subst h1 h2
+    exact ⟨rfl, rfl, fun _ => count_pos_mem _ _ hcnt⟩
+
+theorem combined_type {d : TokenDef} {src : Str} {b w e : Nat} {t : Token} (h : combined d src b w = .ok (some (e, t))) :
+    80 ≤ t.type := by
+  unfold combined at h
+  simp only [] at h
+  split at h
+  · cases h
+  · split at h
+    · cases h
+    · rename_i off _
+      cases hty : typeOf d (T.beginCombine + off) with
+      | error er => rw [hty] at h; cases h
+      | ok ty =>
+        rw [hty] at h
+        have := typeOf_ok hty
+        simp only [bind, Except.bind, pure, Except.pure, Except.ok.injEq, Option.some.injEq, Prod.mk.injEq] at h
+        rw [← h.2]; simp only [this, T.beginCombine]; omega
+
+theorem parseSymbol_type {d : TokenDef} {src : Str} {b e : Nat} {t : Token} (h : parseSymbol d src b = .ok (e, t)) :
+    80 ≤ t.type := by
+  unfold parseSymbol at h
+  cases h3 : combined d src b 3 with
+  | error er => rw [h3] at h; cases h
+  | ok r3 =>
+    rw [h3] at h
+    simp only [bind, Except.bind] at h
+    cases r3 with
+    | some r =>
+      simp only [pure, Except.pure, Except.ok.injEq] at h
+      subst h; exact combined_type h3
+    | none =>
+      simp only [] at h
+      cases h2 : combined d src b 2 with
+      | error er => rw [h2] at h; cases h
+      | ok r2 =>
+        rw [h2] at h
+        cases r2 with
+        | some r =>
+          simp only [pure, Except.pure, Except.ok.injEq] at h
+          subst h; exact combined_type h2
+        | none =>
+          simp only [] at h
+          cases hv : charAt src b with
+          | error er => rw [hv] at h; cases h
+          | ok value =>
+            rw [hv] at h
+            simp only [] at h
+            split at h
+            · cases h
+            · rename_i off _
+              cases hty : typeOf d (Dom.symbol * 16 + off) with
+              | error er => rw [hty] at h; cases h
+              | ok ty =>
+                rw [hty] at h
+                have htyv := typeOf_ok hty
+                have hge : 80 ≤ ty := by rw [htyv]; simp [Dom.symbol]
+                simp only [] at h
+                split at h
+                · split at h
+                  · cases hws : charIn d.whiteSpace src (b + 1) with
+                    | error er => rw [hws] at h; cases h
+                    | ok ws =>
+                      rw [hws] at h
+                      simp only [] at h
+                      split at h <;> (simp only [pure, Except.pure, Except.ok.injEq, Prod.mk.injEq] at h; rw [← h.2])
+                      · simp [Token.opUnaryMinus, T.minus]
+                      · exact hge
+                  · simp only [pure, Except.pure, Except.ok.injEq, Prod.mk.injEq] at h; rw [← h.2]; exact hge
+                · simp only [pure, Except.pure, Except.ok.injEq, Prod.mk.injEq] at h; rw [← h.2]; exact hge
+
+/-- only the white-space parser makes line break tokens -/
+theorem parser_lb {d : TokenDef} {dom : Nat} {src : Str} {i e : Nat} {t : Token} (h : parser d dom src i = .ok (e, t))
+    (hl : isLBt t = true) : dom = Dom.whiteSpace := by
+  have hty : t.type = T.lineBreak := by simpa [isLBt] using hl
+  unfold parser at h
+  split at h
+  · assumption
+  · exfalso
+    split at h
+    · unfold parseComment at h
+      cases hf : firstOpen d.comment src i with
+      | error er => rw [hf] at h; cases h
+      | ok p =>
+        rw [hf] at h
+        simp only [bind, Except.bind] at h
+        split at h <;> (simp only [pure, Except.pure, Except.ok.injEq, Prod.mk.injEq] at h; rw [← h.2] at hty; simp [T.comment, T.lineBreak] at hty)
+    · split at h
+      · unfold parseQuote at h
+        cases hf : firstOpen d.quote src i with
+        | error er => rw [hf] at h; cases h
+        | ok p =>
+          rw [hf] at h
+          simp only [bind, Except.bind] at h
+          cases hq : quoteLoop src p.2 (i + p.1.length) src.length (i + p.1.length) with
+          | error er => rw [hq] at h; cases h
+          | ok e' =>
+            rw [hq] at h
+            simp only [] at h
+            split at h
+            · cases h
+            · simp only [pure, Except.pure, Except.ok.injEq, Prod.mk.injEq] at h
+              rw [← h.2] at hty
+              simp only [] at hty
+              split at hty <;> simp [T.regexp, T.string, T.lineBreak] at hty
+      · split at h
+        · unfold parseNumber at h
+          simp only [Except.ok.injEq, Prod.mk.injEq] at h
+          rw [← h.2] at hty
+          simp only [] at hty
+          split at hty <;> simp [T.decimal, T.digit, T.lineBreak] at hty
+        · split at h
+          · unfold parseIdentifier at h
+            simp only [Except.ok.injEq, Prod.mk.injEq] at h
+            rw [← h.2] at hty
+            simp [T.name, T.lineBreak] at hty
+          · split at h
+            · have := parseSymbol_type h
+              rw [hty] at this; simp [T.lineBreak] at this
+            · cases h
+
+/-- a lexer-made line break: contains a newline, is non-empty white space -/
+def lbRawOK (d : TokenDef) (t : Token) : Prop :=
+  isLBt t = true → '\n' ∈ t.string ∧ t.string ≠ [] ∧ ∀ c ∈ t.string, c ∈ d.whiteSpace
+
+theorem parseLoop_shape {d : TokenDef} (hw : wf d = true) {src : Str} : ∀ (fuel i : Nat) (toks : List Token),
+    parseLoop d src fuel i = .ok toks →
+    (∀ t ∈ toks, lbRawOK d t) ∧ noAdj toks = true ∧ (headLB toks = true → charIn d.whiteSpace src i = .ok true)
+  | fuel, i, toks, h => by
+    unfold parseLoop at h
+    split at h
+    · rename_i hlt
+      cases fuel with
+      | zero => cases h
+      | succ f =>
+        simp only [] at h
+        cases hd : analyzeDomain d src i with
+        | error er => rw [hd] at h; cases h
+        | ok dom =>
+          rw [hd] at h
+          simp only [bind, Except.bind] at h
+          cases hp : parser d dom src i with
+          | error er => rw [hp] at h; cases h
+          | ok res =>
+            obtain ⟨e, t⟩ := res
+            rw [hp] at h
+            simp only [] at h
+            cases hr : parseLoop d src f e with
+            | error er => rw [hr] at h; cases h
+            | ok rest =>
+              rw [hr] at h
+              simp only [pure, Except.pure, Except.ok.injEq] at h
+              subst h
+              obtain ⟨i1, i2, i3⟩ := parseLoop_shape hw f e rest hr
+              have hs := parser_ok hw hlt hd hp
+              -- facts about `t` when it is a line break
+              have hlb : isLBt t = true → dom = Dom.whiteSpace ∧ e = i + spanLen d.whiteSpace src i ∧
+                  t.string = slice src i e ∧ '\n' ∈ t.string := by
+                intro hl
+                have hdom := parser_lb hp hl
+                have hpw : parseWhiteSpace d src i = .ok (e, t) := by
+                  unfold parser at hp; simpa [hdom] using hp
+                obtain ⟨f1, f2, f3⟩ := parseWhiteSpace_facts hw hpw
+                exact ⟨hdom, f1, f2, f3 hl⟩
+              refine ⟨?_, ?_, ?_⟩
+              · intro t' ht'
+                simp only [List.mem_cons] at ht'
+                cases ht' with
+                | inl h1 =>
+                  subst h1
+                  intro hl
+                  obtain ⟨_, f1, f2, f3⟩ := hlb hl
+                  refine ⟨f3, ?_, ?_⟩
+                  · rw [f2]; intro hnil
+                    have := congrArg List.length hnil
+                    rw [slice_length src hs.le, List.length_nil] at this
+                    have := hs.lt; omega
+                  · intro c hc
+                    rw [f2, f1] at hc
+                    have := spanLen_all d.whiteSpace src i c hc
+                    simpa using this
+                | inr h1 => exact i1 t' h1
+              · rw [noAdj_cons, i2]
+                simp only [Bool.and_true, Bool.not_eq_true', Bool.and_eq_false_iff]
+                by_cases hl : isLBt t = true
+                · right
+                  cases hh : headLB rest
+                  · rfl
+                  · exfalso
+                    obtain ⟨_, f1, _, _⟩ := hlb hl
+                    have hnext := i3 hh
+                    obtain ⟨c, hc, hin⟩ := charIn_ok hnext
+                    rw [f1] at hc
+                    have := spanLen_stop d.whiteSpace src i c hc
+                    rw [this] at hin; cases hin
+                · left; simpa using hl
+              · intro hh
+                rw [headLB_cons] at hh
+                obtain ⟨hdom, _⟩ := hlb hh
+                have ha := analyzeGo_sound _ _ hd
+                unfold analyzer at ha
+                simpa [hdom] using ha
+    · injection h with h; subst h
+      exact ⟨by simp, rfl, by simp [headLB_nil]⟩
+
+theorem parseImpl_shape {d : TokenDef} (hw : wf d = true) {src : Str} {toks : List Token} (h : parseImpl d src = .ok toks) :
+    filterable d toks ∧ ∀ t ∈ toks, lbNL t := by
+  obtain ⟨h1, h2, _⟩ := parseLoop_shape hw _ _ _ h
+  refine ⟨⟨h2, ?_⟩, ?_⟩
+  · intro t ht hl; exact (h1 t ht hl).2
+  · intro t ht hl; exact (h1 t ht hl).1
+
+/-! ### from raw token lists up to source maps to `Tokenizer.parse` -/
+
+def unsimp (p : Nat × Str) : Token := ⟨p.1, p.2, SourceMap.empty⟩
+
+theorem LBsame.symm {a b : Token} (h : LBsame a b) : LBsame b a := by
+  obtain ⟨h1, h2⟩ := h
+  refine ⟨h1.symm, ?_⟩
+  rw [← h1]
+  split
+  · rename_i hl
+    simp only [hl, ↓reduceIte] at h2
+    obtain ⟨m, m1, m2⟩ := h2
+    exact ⟨m, m2, m1⟩
+  · rename_i hl
+    simp only [hl, ↓reduceIte] at h2
+    exact h2.symm
+
+theorem LBsame.trans {a b c : Token} (h : LBsame a b) (h' : LBsame b c) : LBsame a c := by
+  obtain ⟨h1, h2⟩ := h
+  obtain ⟨h3, h4⟩ := h'
+  refine ⟨h1.trans h3, ?_⟩
+  rw [← h1] at h4
+  split
+  · rename_i hl
+    simp only [hl, ↓reduceIte] at h2 h4
+    obtain ⟨m, m1, m2⟩ := h2
+    obtain ⟨n, n1, n2⟩ := h4
+    exact ⟨m, m1, by omega⟩
+  · rename_i hl
+    simp only [hl, ↓reduceIte] at h2 h4
+    exact h2.trans h4
+
+theorem AllRel.symm' {x y : List Token} (h : AllRel LBsame x y) : AllRel LBsame y x := by
+  induction h with
+  | nil => exact .nil
+  | cons hab _ ih => exact .cons hab.symm ih
+
+theorem AllRel.trans' {x y z : List Token} (h : AllRel LBsame x y) (h' : AllRel LBsame y z) : AllRel LBsame x z := by
+  induction h generalizing z with
+  | nil => cases h'; exact .nil
+  | cons hab _ ih =>
+    cases h' with
+    | cons hbc hr => exact .cons (hab.trans hbc) (ih hr)
+
+theorem unsimp_rel (ts : List Token) : AllRel LBsame ts ((ts.map simplify).map unsimp) := by
+  induction ts with
+  | nil => exact .nil
+  | cons t ts ih =>
+    refine .cons ⟨rfl, ?_⟩ ih
+    split
+    · exact ⟨lastLineLen t.string, by simp, by simp [unsimp, simplify]⟩
+    · rfl
+
+theorem unsimp_lbNL (ts : List Token) (h : ∀ t ∈ ts, lbNL t) : ∀ t ∈ (ts.map simplify).map unsimp, lbNL t := by
+  intro t ht
+  simp only [List.map_map, List.mem_map, Function.comp] at ht
+  obtain ⟨u, hu, rfl⟩ := ht
+  intro hl
+  exact h u hu hl
+
+/-- `Tokenizer.parse` is determined by `norm` of the raw tokens up to line-break widths and source maps. -/
+theorem tokenize_layout {d : TokenDef} (hw : wf d = true) (hd : ShippedFilters d) (hb : regexBlind d = true)
+    {s s' : Str} {L L' : List (Nat × Str)} (h1 : lexS d s = .ok L) (h2 : lexS d s' = .ok L')
+    (H : AllRel LBsame (norm (L.map unsimp)) (norm (L'.map unsimp))) :
+    (tokenize d s).map (List.map simplify) = (tokenize d s').map (List.map simplify) := by
+  have key : ∀ (s : Str) (L : List (Nat × Str)), lexS d s = .ok L →
+      ∃ ts, parseImpl d s = .ok ts ∧ tokenize d s = rebuild (norm ts ++ [Token.mkEOF]) ∧
+        AllRel LBsame (norm ts) (norm (L.map unsimp)) := by
+    intro s L h
+    unfold lexS viewL at h
+    cases hp : parseImpl d s with
+    | error e => rw [hp] at h; simp [Except.map] at h
+    | ok ts =>
+      rw [hp] at h
+      simp only [Except.map, Except.ok.injEq] at h
+      subst h
+      obtain ⟨hf, hn⟩ := parseImpl_shape hw hp
+      refine ⟨ts, rfl, ?_, norm_rel (unsimp_rel ts) hn (unsimp_lbNL ts hn)⟩
+      simp [tokenize, lexParse, hp, bind, Except.bind, pure, Except.pure, postFilter_norm hd hb hf]
+  obtain ⟨ts, _, t1, r1⟩ := key s L h1
+  obtain ⟨ts', _, t2, r2⟩ := key s' L' h2
+  rw [t1, t2]
+  exact rebuild_LBsame ((r1.trans' H).trans' r2.symm')
+
+/-! ### white space runs and comments at the head of the rest -/
+
+set_option linter.unusedSimpArgs false
+
+/-- the analyse order starts with white space, then comments (decided for the generated definitions) -/
+def orderOK (d : TokenDef) : Bool :=
+  match d.analyzeOrder with
+  | a :: b :: _ => a == Dom.whiteSpace && b == Dom.comment
+  | _ => false
+
+theorem step_ws {d : TokenDef} (hw : wf d = true) (ho : orderOK d = true) (w r : Str) (hne : w ≠ [])
+    (hall : ∀ c ∈ w, d.whiteSpace.contains c = true) (hr : headIn d.whiteSpace r = false) :
+    ∃ t, step d (w ++ r) = .ok (w.length, t) ∧ t.string = w ∧
+      t.type = (if Str.count '\n' w = 0 then T.whiteSpace else T.lineBreak) := by
+  obtain ⟨c, cs, rfl⟩ : ∃ c cs, w = c :: cs := by
+    cases w with
+    | nil => exact absurd rfl hne
+    | cons c cs => exact ⟨c, cs, rfl⟩
+  have hc : d.whiteSpace.contains c = true := hall c (by simp)
+  have hd : analyzeDomain d (c :: cs ++ r) 0 = .ok Dom.whiteSpace := by
+    unfold analyzeDomain
+    unfold orderOK at ho
+    split at ho
+    · rename_i a b rest heq
+      simp only [Bool.and_eq_true, beq_iff_eq] at ho
+      rw [heq, ho.1]
+      unfold analyzeGo analyzer
+      have hc' : c ∈ d.whiteSpace := by simpa using hc
+      simp [charIn_zero, hc', bind, Except.bind, pure, Except.pure]
+    · cases ho
+  have hspan : spanLen d.whiteSpace (c :: cs ++ r) 0 = (c :: cs).length := (spanLen_prefix_iff _ _ _).mpr ⟨hall, hr⟩
+  have hbs : '\\' ∉ d.whiteSpace := by simp [wf] at hw; exact hw.1.2
+  have hno : '\\' ∉ (c :: cs) := by
+    intro hm; have := hall _ hm; simp at this; exact hbs this
+  have hz := countSubAux_zero '\\' ['\n'] _ 0 hno
+  unfold step
+  rw [hd]
+  simp only [bind, Except.bind]
+  unfold parser parseWhiteSpace
+  simp only [↓reduceIte, hspan, Nat.zero_add, slice_left_all, hz, Nat.lt_irrefl]
+  split
+  · rename_i h0; exact ⟨_, rfl, rfl, by simp [h0]⟩
+  · rename_i h0; exact ⟨_, rfl, rfl, by simp [h0]⟩
+
+theorem lexS_ws {d : TokenDef} (hw : wf d = true) (ho : orderOK d = true) (w r : Str) (hne : w ≠ [])
+    (hall : ∀ c ∈ w, d.whiteSpace.contains c = true) (hr : headIn d.whiteSpace r = false) :
+    lexS d (w ++ r) = (lexS d r).map (fun rest =>
+      ((if Str.count '\n' w = 0 then T.whiteSpace else T.lineBreak), w) :: rest) := by
+  obtain ⟨t, hs, h1, h2⟩ := step_ws hw ho w r hne hall hr
+  rw [lexS_unfold hw _ (by simp [hne]), hs]
+  simp only [List.drop_left, simplify, h1, h2]
+
+theorem wfLayout_commentFree {d : TokenDef} (hwl : wfLayout d = true) {p : Str × Str} (hp : p ∈ d.comment) :
+    ∀ ch ∈ p.1, d.whiteSpace.contains ch = false :=
+  wfLayout_pats hwl p.1 (comment_sub d p hp)
+
+theorem step_comment {d : TokenDef} (hw : wf d = true) (hwl : wfLayout d = true) (ho : orderOK d = true)
+    (p : Str × Str) (body r : Str) (hf : firstOpen d.comment (p.1 ++ body ++ r) 0 = .ok p) (hb : '\n' ∉ body)
+    (hr : nlOrEnd r = true) :
+    ∃ t, step d (p.1 ++ body ++ r) = .ok ((p.1 ++ body).length, t) ∧ t.string = p.1 ++ body ∧ t.type = T.comment := by
+  obtain ⟨hmem, hs⟩ := firstOpen_ok hf
+  have hlen := wf_comment hw hmem
+  have hclose := wfLayout_comment hwl hmem
+  have hfree := wfLayout_commentFree hwl hmem
+  obtain ⟨c, cs, hp1⟩ : ∃ c cs, p.1 = c :: cs := by
+    cases h : p.1 with
+    | nil => rw [h] at hlen; simp at hlen
+    | cons c cs => exact ⟨c, cs, rfl⟩
+  have hcws : d.whiteSpace.contains c = false := hfree c (by rw [hp1]; simp)
+  have hany : anyOpen d.comment (p.1 ++ body ++ r) 0 = true := by
+    simp only [anyOpen, List.any_eq_true]; exact ⟨p, hmem, hs⟩
+  have hd : analyzeDomain d (p.1 ++ body ++ r) 0 = .ok Dom.comment := by
+    unfold analyzeDomain
+    unfold orderOK at ho
+    split at ho
+    · rename_i a b rest heq
+      simp only [Bool.and_eq_true, beq_iff_eq] at ho
+      rw [heq, ho.1, ho.2]
+      unfold analyzeGo analyzeGo analyzer
+      have hcws' : c ∉ d.whiteSpace := by simpa using hcws
+      simp only [hp1, List.cons_append, List.append_assoc, charIn_zero] at hany ⊢
+      simp [bind, Except.bind, pure, Except.pure, hany, hcws', Dom.comment, Dom.whiteSpace]
+    · cases ho
+  have hnl : '\n' ∉ (p.1 ++ body).drop p.1.length := by simpa using hb
+  have hk : p.1.length ≤ (p.1 ++ body).length := by simp
+  have hfind : findFrom (p.1 ++ body ++ r) ['\n'] p.1.length = if r = [] then none else some (p.1 ++ body).length := by
+    unfold findFrom
+    simp only [show p.1.length ≤ (p.1 ++ body ++ r).length from by simp [Nat.add_assoc], ↓reduceIte]
+    rw [List.drop_append_of_le_length hk]
+    cases r with
+    | nil =>
+      simp only [List.append_nil, ↓reduceIte]
+      rw [findSub_single_none '\n' _ hnl]; rfl
+    | cons ch rest =>
+      have hc : ch = '\n' := by simpa [nlOrEnd] using hr
+      subst hc
+      rw [findSub_single_at '\n' _ rest hnl]
+      simp; omega
+  unfold step
+  rw [hd]
+  simp only [bind, Except.bind]
+  unfold parser parseComment
+  simp only [show ¬ Dom.comment = Dom.whiteSpace from by decide, ↓reduceIte, hf, bind, Except.bind, hclose, Nat.zero_add, Nat.add_zero, hfind]
+  by_cases hre : r = []
+  · subst hre
+    simp only [↓reduceIte, pure, Except.pure, List.append_nil]
+    exact ⟨_, rfl, by show slice (p.1 ++ body) 0 (p.1 ++ body).length = _; simp only [slice, List.take_length, List.drop_zero], rfl⟩
+  · simp only [hre, ↓reduceIte, pure, Except.pure]
+    exact ⟨_, rfl, slice_left_all _ _, rfl⟩
+
+theorem lexS_comment {d : TokenDef} (hw : wf d = true) (hwl : wfLayout d = true) (ho : orderOK d = true)
+    (p : Str × Str) (body r : Str) (hf : firstOpen d.comment (p.1 ++ body ++ r) 0 = .ok p) (hb : '\n' ∉ body)
+    (hr : nlOrEnd r = true) :
+    lexS d (p.1 ++ body ++ r) = (lexS d r).map (fun rest => (T.comment, p.1 ++ body) :: rest) := by
+  obtain ⟨t, hs, h1, h2⟩ := step_comment hw hwl ho p body r hf hb hr
+  have hne : p.1 ++ body ++ r ≠ [] := by
+    have := wf_comment hw (firstOpen_ok hf).1
+    intro h; have h' := congrArg List.length h; simp only [List.length_append, List.length_nil] at h'; omega
+  rw [lexS_unfold hw _ hne, hs]
+  simp only [List.drop_left, simplify, h1, h2]
+
+/-! ### end to end: layout rewrites of the source leave `Tokenizer.parse` unchanged -/
+
+/-- all side conditions on a definition used by the character-level theorems (decided for the generated definitions) -/
+def layoutReady (d : TokenDef) : Prop :=
+  wf d = true ∧ wfLayout d = true ∧ orderOK d = true ∧ ShippedFilters d ∧ regexBlind d = true
+
+theorem lexS_lbNL {d : TokenDef} (hw : wf d = true) {s : Str} {L : List (Nat × Str)} (h : lexS d s = .ok L) :
+    ∀ t ∈ L.map unsimp, lbNL t := by
+  unfold lexS viewL at h
+  cases hp : parseImpl d s with
+  | error e => rw [hp] at h; simp [Except.map] at h
+  | ok ts =>
+    rw [hp] at h
+    simp only [Except.map, Except.ok.injEq] at h
+    subst h
+    exact unsimp_lbNL ts (parseImpl_shape hw hp).2
+
+/-- the two ways the raw tokens of the rest may differ: only in insignificant tokens, or token by token up to line-break widths -/
+def RestRel (X X' : List (Nat × Str)) : Prop :=
+  significant (X.map unsimp) = significant (X'.map unsimp) ∨ AllRel LBsame (X.map unsimp) (X'.map unsimp)
+
+/-- the master lemma of the character level: a common prefix of whole tokens, then rests whose raw tokens are related -/
+theorem tokenize_of_rest {d : TokenDef} (hr : layoutReady d) {s s' : Str} {ta X X' : List (Nat × Str)}
+    (h1 : lexS d s = .ok (ta ++ X)) (h2 : lexS d s' = .ok (ta ++ X')) (hrel : RestRel X X') :
+    (tokenize d s).map (List.map simplify) = (tokenize d s').map (List.map simplify) := by
+  obtain ⟨hw, _, _, hd, hb⟩ := hr
+  apply tokenize_layout hw hd hb h1 h2
+  cases hrel with
+  | inl hsig =>
+    have : norm ((ta ++ X).map unsimp) = norm ((ta ++ X').map unsimp) := by
+      unfold norm; simp only [List.map_append, significant_append, hsig]
+    rw [this]; exact AllRel.refl LBsame.refl _
+  | inr hall =>
+    apply norm_rel _ (lexS_lbNL hw h1) (lexS_lbNL hw h2)
+    simp only [List.map_append]
+    exact AllRel.append (AllRel.refl LBsame.refl _) hall
+
+theorem count_append_zero (c : Char) (a b : Str) : Str.count c (a ++ b) = 0 ↔ Str.count c a = 0 ∧ Str.count c b = 0 := by
+  rw [count_append]; omega
+
+theorem not_mem_of_count_zero (c : Char) : ∀ s : Str, Str.count c s = 0 → c ∉ s
+  | [], _ => by simp
+  | x :: xs, hz => by
+    rw [count_cons] at hz
+    by_cases hx : x = c
+    · simp [hx] at hz
+    · simp only [hx, ↓reduceIte, Nat.zero_add] at hz
+      simp only [List.mem_cons, not_or]
+      exact ⟨fun e => hx e.symm, not_mem_of_count_zero c xs hz⟩
+
+theorem headIn_of_all {a w r : Str} (hne : w ≠ []) (hall : ∀ c ∈ w, a.contains c = true) : headIn a (w ++ r) = true := by
+  cases w with
+  | nil => exact absurd rfl hne
+  | cons c cs => exact hall c (by simp)
+
+theorem significant_ws_cons (s : Str) (X : List (Nat × Str)) :
+    significant (((T.whiteSpace, s) :: X).map unsimp) = significant (X.map unsimp) := by
+  rw [List.map_cons]
+  exact significant_cons_drop (Or.inr rfl) _
+
+/-- **Blanks between tokens / at line ends.** `a` is a sequence of whole tokens, the rest starts with a (possibly empty)
+    white space run `run`; inserting white space `w` in front of that run — blanks anywhere, or whole blank lines when the
+    run already contains a newline — leaves `Tokenizer.parse` unchanged up to source maps. -/
+theorem layout_blank {d : TokenDef} (hr : layoutReady d) (a run r1 w : Str) {ta L1 : List (Nat × Str)}
+    (hwne : w ≠ []) (hwall : ∀ c ∈ w, d.whiteSpace.contains c = true) (hwnl : Str.count '\n' w = 0 ∨ Str.count '\n' run ≠ 0)
+    (hrun : ∀ c ∈ run, d.whiteSpace.contains c = true) (hr1 : headIn d.whiteSpace r1 = false)
+    (hpre : TokPrefix d (run ++ r1) (w ++ (run ++ r1)) a ta) (hL : lexS d r1 = .ok L1) :
+    (tokenize d (a ++ (run ++ r1))).map (List.map simplify) =
+      (tokenize d (a ++ (w ++ (run ++ r1)))).map (List.map simplify) := by
+  obtain ⟨hw, hwl, ho, hd, hb⟩ := hr
+  have hc : Compat d (run ++ r1) (w ++ (run ++ r1)) :=
+    ⟨[], run ++ r1, w ++ (run ++ r1), rfl, rfl, Or.inr (headIn_of_all hwne hwall)⟩
+  obtain ⟨e1, e2⟩ := lexS_prefix hw hwl hc hpre
+  -- the rest after the insertion: one white space token `w ++ run`
+  have hwr : ∀ c ∈ w ++ run, d.whiteSpace.contains c = true := by
+    intro c hc'; simp only [List.mem_append] at hc'
+    cases hc' with
+    | inl h => exact hwall c h
+    | inr h => exact hrun c h
+  have l2 : lexS d (w ++ (run ++ r1)) = .ok (((if Str.count '\n' (w ++ run) = 0 then T.whiteSpace else T.lineBreak), w ++ run) :: L1) := by
+    rw [← List.append_assoc, lexS_ws hw ho (w ++ run) r1 (by simp [hwne]) hwr hr1, hL]; rfl
+  rw [l2] at e2
+  simp only [Except.map] at e2
+  by_cases hrn : run = []
+  · subst hrn
+    have hwnl : Str.count '\n' w = 0 := hwnl.resolve_right (by simp [Str.count])
+    simp only [List.nil_append, List.append_nil] at e1 e2 l2 ⊢
+    rw [hL] at e1
+    simp only [Except.map, hwnl, ↓reduceIte] at e1 e2
+    apply tokenize_of_rest ⟨hw, hwl, ho, hd, hb⟩ e1 e2
+    left; rw [significant_ws_cons]
+  · have l1 : lexS d (run ++ r1) = .ok (((if Str.count '\n' run = 0 then T.whiteSpace else T.lineBreak), run) :: L1) := by
+      rw [lexS_ws hw ho run r1 hrn hrun hr1, hL]; rfl
+    rw [l1] at e1
+    simp only [Except.map] at e1
+    apply tokenize_of_rest ⟨hw, hwl, ho, hd, hb⟩ e1 e2
+    by_cases hnl : Str.count '\n' run = 0
+    · have hwnl : Str.count '\n' w = 0 := hwnl.resolve_right (by simp [hnl])
+      have : Str.count '\n' (w ++ run) = 0 := (count_append_zero _ _ _).mpr ⟨hwnl, hnl⟩
+      left
+      simp only [hnl, this, ↓reduceIte]
+      rw [significant_ws_cons, significant_ws_cons]
+    · have : ¬ Str.count '\n' (w ++ run) = 0 := fun h => hnl ((count_append_zero _ _ _).mp h).2
+      right
+      simp only [hnl, this, ↓reduceIte, List.map_cons]
+      refine .cons (LBsame.lb rfl rfl ?_) (AllRel.refl LBsame.refl _)
+      simp only [unsimp]
+      rw [lastLineLen_append w run (count_pos_mem _ _ hnl)]
+
+/-- generalisation of `tokenize_of_rest`: the significant raw tokens may first be regrouped by joining adjacent line breaks -/
+theorem tokenize_of_merge {d : TokenDef} (hr : layoutReady d) {s s' : Str} {L L' : List (Nat × Str)}
+    (h1 : lexS d s = .ok L) (h2 : lexS d s' = .ok L') {Y Y' : List Token}
+    (e1 : mergeLB (significant (L.map unsimp)) = mergeLB Y) (e2 : mergeLB (significant (L'.map unsimp)) = mergeLB Y')
+    (hrel : AllRel LBsame Y Y') (n : ∀ t ∈ Y, lbNL t) (n' : ∀ t ∈ Y', lbNL t) :
+    (tokenize d s).map (List.map simplify) = (tokenize d s').map (List.map simplify) := by
+  obtain ⟨hw, _, _, hd, hb⟩ := hr
+  apply tokenize_layout hw hd hb h1 h2
+  unfold norm trimLB
+  rw [e1, e2]
+  unfold mergeLB
+  exact dropTrailLB_rel (dropLeadLB_rel (mergeGo_rel hrel n n' none none trivial))
+
+theorem significant_comment_cons (s : Str) (X : List (Nat × Str)) :
+    significant (((T.comment, s) :: X).map unsimp) = significant (X.map unsimp) := by
+  rw [List.map_cons]
+  exact significant_cons_drop (Or.inl rfl) _
+
+theorem significant_lb_cons (s : Str) (X : List (Nat × Str)) :
+    significant (((T.lineBreak, s) :: X).map unsimp) = unsimp (T.lineBreak, s) :: significant (X.map unsimp) := by
+  rw [List.map_cons]
+  exact significant_cons_keep rfl _
+
+/-- **Trailing comment.** After the whole tokens `a`, at a line end (`r` is empty or starts with a newline), inserting
+    blanks and a comment leaves `Tokenizer.parse` unchanged up to source maps. -/
+theorem layout_comment {d : TokenDef} (hr : layoutReady d) (a w body r : Str) (p : Str × Str) {ta L : List (Nat × Str)}
+    (hwne : w ≠ []) (hwall : ∀ c ∈ w, d.whiteSpace.contains c = true) (hwnl : Str.count '\n' w = 0)
+    (hf : firstOpen d.comment (p.1 ++ body ++ r) 0 = .ok p) (hb : '\n' ∉ body) (hnl : nlOrEnd r = true)
+    (hpre : TokPrefix d r (w ++ (p.1 ++ body ++ r)) a ta) (hL : lexS d r = .ok L) :
+    (tokenize d (a ++ r)).map (List.map simplify) =
+      (tokenize d (a ++ (w ++ (p.1 ++ body ++ r)))).map (List.map simplify) := by
+  obtain ⟨hw, hwl, ho, hd, hbl⟩ := hr
+  have hc : Compat d r (w ++ (p.1 ++ body ++ r)) := ⟨[], r, _, rfl, rfl, Or.inr (headIn_of_all hwne hwall)⟩
+  obtain ⟨e1, e2⟩ := lexS_prefix hw hwl hc hpre
+  -- the comment opener is not white space
+  obtain ⟨hmem, _⟩ := firstOpen_ok hf
+  have hlen := wf_comment hw hmem
+  have hcm : headIn d.whiteSpace (p.1 ++ body ++ r) = false := by
+    cases h : p.1 with
+    | nil => rw [h] at hlen; simp at hlen
+    | cons c cs =>
+      simp only [List.cons_append, headIn]
+      exact wfLayout_commentFree hwl hmem c (by rw [h]; simp)
+  have l2 : lexS d (w ++ (p.1 ++ body ++ r)) = .ok ((T.whiteSpace, w) :: (T.comment, p.1 ++ body) :: L) := by
+    rw [lexS_ws hw ho w _ hwne hwall hcm, lexS_comment hw hwl ho p body r hf hb hnl, hL]
+    simp [Except.map, hwnl]
+  rw [hL] at e1
+  rw [l2] at e2
+  simp only [Except.map] at e1 e2
+  apply tokenize_of_rest ⟨hw, hwl, ho, hd, hbl⟩ e1 e2
+  left
+  rw [significant_ws_cons, significant_comment_cons]
+
+/-- **Comment-only line.** Before a line end (`nlrun` is a white space run containing a newline) inserting a new line
+    with any indentation `ind` and a comment leaves `Tokenizer.parse` unchanged up to source maps (the two line breaks
+    around the comment are merged by `post_filter`; the merged one keeps the last-line width). -/
+theorem layout_comment_line {d : TokenDef} (hr : layoutReady d) (a ind body nlrun r1 : Str) (p : Str × Str) {ta L1 : List (Nat × Str)}
+    (hind : ∀ c ∈ ind, d.whiteSpace.contains c = true) (hnlws : d.whiteSpace.contains '\n' = true)
+    (hrun : ∀ c ∈ nlrun, d.whiteSpace.contains c = true) (hrnl : nlOrEnd nlrun = true) (hrne : nlrun ≠ [])
+    (hr1 : headIn d.whiteSpace r1 = false)
+    (hf : firstOpen d.comment (p.1 ++ body ++ (nlrun ++ r1)) 0 = .ok p) (hb : '\n' ∉ body)
+    (hpre : TokPrefix d (nlrun ++ r1) (('\n' :: ind) ++ (p.1 ++ body ++ (nlrun ++ r1))) a ta) (hL : lexS d r1 = .ok L1) :
+    (tokenize d (a ++ (nlrun ++ r1))).map (List.map simplify) =
+      (tokenize d (a ++ (('\n' :: ind) ++ (p.1 ++ body ++ (nlrun ++ r1))))).map (List.map simplify) := by
+  obtain ⟨hw, hwl, ho, hd, hbl⟩ := hr
+  have hw1 : ∀ c ∈ '\n' :: ind, d.whiteSpace.contains c = true := by
+    intro c hc; simp only [List.mem_cons] at hc
+    cases hc with
+    | inl h => rw [h]; exact hnlws
+    | inr h => exact hind c h
+  have hc : Compat d (nlrun ++ r1) (('\n' :: ind) ++ (p.1 ++ body ++ (nlrun ++ r1))) :=
+    ⟨[], _, _, rfl, rfl, Or.inr (headIn_of_all (by simp) hw1)⟩
+  obtain ⟨e1, e2⟩ := lexS_prefix hw hwl hc hpre
+  obtain ⟨hmem, _⟩ := firstOpen_ok hf
+  have hlen := wf_comment hw hmem
+  have hcm : headIn d.whiteSpace (p.1 ++ body ++ (nlrun ++ r1)) = false := by
+    cases h : p.1 with
+    | nil => rw [h] at hlen; simp at hlen
+    | cons c cs =>
+      simp only [List.cons_append, headIn]
+      exact wfLayout_commentFree hwl hmem c (by rw [h]; simp)
+  have hnl1 : nlOrEnd (nlrun ++ r1) = true := by rw [nlOrEnd_append_of_ne _ _ hrne]; exact hrnl
+  have hcnt1 : ¬ Str.count '\n' ('\n' :: ind) = 0 := by rw [count_cons]; simp
+  have hcnt2 : ¬ Str.count '\n' nlrun = 0 := by
+    cases nlrun with
+    | nil => exact absurd rfl hrne
+    | cons c cs =>
+      have : c = '\n' := by simpa [nlOrEnd] using hrnl
+      rw [count_cons, this]; simp
+  have l1 : lexS d (nlrun ++ r1) = .ok ((T.lineBreak, nlrun) :: L1) := by
+    rw [lexS_ws hw ho nlrun r1 hrne hrun hr1, hL]; simp [Except.map, hcnt2]
+  have l2 : lexS d (('\n' :: ind) ++ (p.1 ++ body ++ (nlrun ++ r1)))
+      = .ok ((T.lineBreak, '\n' :: ind) :: (T.comment, p.1 ++ body) :: (T.lineBreak, nlrun) :: L1) := by
+    rw [lexS_ws hw ho ('\n' :: ind) _ (by simp) hw1 hcm, lexS_comment hw hwl ho p body _ hf hb hnl1, l1]
+    simp [Except.map, hcnt1]
+  rw [l1] at e1
+  rw [l2] at e2
+  simp only [Except.map] at e1 e2
+  -- regroup: the two line breaks around the comment are joined
+  let lb1 := unsimp (T.lineBreak, '\n' :: ind)
+  let lb2 := unsimp (T.lineBreak, nlrun)
+  have n1 := lexS_lbNL hw e1
+  have n2 := lexS_lbNL hw e2
+  have hlb2nl : '\n' ∈ nlrun := count_pos_mem _ _ hcnt2
+  apply tokenize_of_merge ⟨hw, hwl, ho, hd, hbl⟩ e1 e2
+    (Y := significant (ta.map unsimp) ++ lb2 :: significant (L1.map unsimp))
+    (Y' := significant (ta.map unsimp) ++ lb1.joined lb2 :: significant (L1.map unsimp))
+  · simp only [List.map_append, significant_append, significant_lb_cons]; rfl
+  · simp only [List.map_append, significant_append, significant_lb_cons, significant_comment_cons]
+    unfold mergeLB
+    exact mergeGo_join lb1 lb2 rfl rfl _ _ none
+  · apply AllRel.append (AllRel.refl LBsame.refl _)
+    refine .cons (LBsame.lb rfl rfl ?_) (AllRel.refl LBsame.refl _)
+    simp only [lb1, lb2, unsimp, Token.joined]
+    rw [lastLineLen_append _ _ hlb2nl]
+  · intro t ht
+    simp only [List.mem_append, List.mem_cons] at ht
+    rcases ht with h | h | h
+    · exact n1 t (by simp only [List.map_append, List.mem_append]; exact Or.inl (List.mem_filter.mp h).1)
+    · rw [h]; intro _; exact hlb2nl
+    · exact n1 t (by simp only [List.map_append, List.mem_append, List.map_cons, List.mem_cons]; exact Or.inr (Or.inr (List.mem_filter.mp h).1))
+  · intro t ht
+    simp only [List.mem_append, List.mem_cons] at ht
+    rcases ht with h | h | h
+    · exact n1 t (by simp only [List.map_append, List.mem_append]; exact Or.inl (List.mem_filter.mp h).1)
+    · rw [h]; intro _; simp [lb1, lb2, unsimp, Token.joined, hlb2nl]
+    · exact n1 t (by simp only [List.map_append, List.mem_append, List.map_cons, List.mem_cons]; exact Or.inr (Or.inr (List.mem_filter.mp h).1))
+
+/-! ### `norm` respects rescaling of line-break widths (general unit) -/
+
+theorem Rescaled.lbt_eq {u u' : Nat} {t t' : Token} (h : Rescaled u u' t t') : isLBt t = isLBt t' := by
+  simp [isLBt, h.1]
+
+theorem Rescaled.joined {u u' : Nat} {a a' b b' : Token} (ha : Rescaled u u' a a') (hb : Rescaled u u' b b') (hla : isLBt a = true) (hlb : isLBt b = true)
+    (nb : lbNL b) (nb' : lbNL b') : Rescaled u u' (a.joined b) (a'.joined b') := by
+  have ta : a.type = T.lineBreak := by simpa [isLBt] using hla
+  have ta' : a'.type = T.lineBreak := by rw [← ha.1]; exact ta
+  have tb : b.type = T.lineBreak := by simpa [isLBt] using hlb
+  have hlb' : isLBt b' = true := by rw [← hb.lbt_eq]; exact hlb
+  have h2 := hb.2
+  simp only [tb, ↓reduceIte] at h2
+  obtain ⟨m, m1, m2⟩ := h2
+  apply Rescaled.lb m (by rw [joined_type]; exact ta) (by rw [joined_type]; exact ta')
+  · simp only [Token.joined]; rw [lastLineLen_append _ _ (nb hlb)]; exact m1
+  · simp only [Token.joined]; rw [lastLineLen_append _ _ (nb' hlb')]; exact m2
+
+theorem significantR_rel {u u' : Nat} {ts ts' : List Token} (h : AllRel (Rescaled u u') ts ts') : AllRel (Rescaled u u') (significant ts) (significant ts') := by
+  induction h with
+  | nil => exact .nil
+  | @cons a b as bs hab _ ih =>
+    unfold significant at ih ⊢
+    simp only [List.filter_cons, ← hab.1]
+    split
+    · exact .cons hab ih
+    · exact ih
+
+def pendRelR (u u' : Nat) : Option Token → Option Token → Prop
+  | none, none => True
+  | some p, some p' => Rescaled u u' p p' ∧ isLBt p = true ∧ lbNL p ∧ lbNL p'
+  | _, _ => False
+
+theorem mergeGoR_rel {u u' : Nat} {ts ts' : List Token} (h : AllRel (Rescaled u u') ts ts') (n : ∀ t ∈ ts, lbNL t) (n' : ∀ t ∈ ts', lbNL t) :
+    ∀ (pend pend' : Option Token), pendRelR u u' pend pend' → AllRel (Rescaled u u') (mergeGo pend ts) (mergeGo pend' ts') := by
+  induction h with
+  | nil =>
+    intro pend pend' hp
+    cases pend <;> cases pend' <;> simp only [pendRelR] at hp
+    · exact .nil
+    · exact .cons hp.1 .nil
+  | @cons a b as bs hab _ ih =>
+    have na : lbNL a := n a (by simp)
+    have nb : lbNL b := n' b (by simp)
+    have ih' := ih (fun t ht => n t (by simp [ht])) (fun t ht => n' t (by simp [ht]))
+    intro pend pend' hp
+    have hty := hab.lbt_eq
+    cases pend <;> cases pend' <;> simp only [pendRelR] at hp
+    · simp only [mergeGo, ← hty]
+      split
+      · rename_i hl; exact ih' _ _ ⟨hab, hl, na, nb⟩
+      · exact .cons hab (ih' none none trivial)
+    · rename_i p p'
+      simp only [mergeGo, ← hty]
+      split
+      · rename_i hl
+        refine ih' _ _ ⟨Rescaled.joined hp.1 hab hp.2.1 hl na nb, ?_, lbNL_joined p a hl na, lbNL_joined p' b (hty ▸ hl) nb⟩
+        rw [joined_isLBt]; exact hp.2.1
+      · exact .cons hp.1 (.cons hab (ih' none none trivial))
+
+theorem dropLeadLBR_rel {u u' : Nat} {x x' : List Token} (h : AllRel (Rescaled u u') x x') : AllRel (Rescaled u u') (dropLeadLB x) (dropLeadLB x') := by
+  cases h with
+  | nil => exact .nil
+  | cons hab hr =>
+    simp only [dropLeadLB, ← hab.lbt_eq]
+    split
+    · exact hr
+    · exact .cons hab hr
+
+theorem dropTrailLBR_rel {u u' : Nat} {x x' : List Token} (h : AllRel (Rescaled u u') x x') : AllRel (Rescaled u u') (dropTrailLB x) (dropTrailLB x') := by
+  induction h with
+  | nil => exact .nil
+  | @cons a b as bs hab hr ih =>
+    cases hr with
+    | nil =>
+      simp only [dropTrailLB, ← hab.lbt_eq]
+      split
+      · exact .nil
+      · exact .cons hab .nil
+    | cons h2 hr2 =>
+      simp only [dropTrailLB]
+      exact .cons hab ih
+
+/-- `norm` respects "same up to last-line widths" -/
+theorem normR_rel {u u' : Nat} {ts ts' : List Token} (h : AllRel (Rescaled u u') ts ts') (n : ∀ t ∈ ts, lbNL t) (n' : ∀ t ∈ ts', lbNL t) :
+    AllRel (Rescaled u u') (norm ts) (norm ts') := by
+  unfold norm trimLB mergeLB
+  apply dropTrailLBR_rel
+  apply dropLeadLBR_rel
+  apply mergeGoR_rel (significantR_rel h) _ _ none none trivial
+  · intro t ht; exact n t ((List.mem_filter.mp ht).1)
+  · intro t ht; exact n' t ((List.mem_filter.mp ht).1)
+
+/-! ### switching the indentation unit, character level -/
+
+theorem splitOn_no (d : Char) : ∀ s : Str, d ∉ s → Str.splitOn d s = [s]
+  | [], _ => rfl
+  | c :: cs, h => by
+    have hc : ¬ c = d := fun e => h (by simp [e])
+    have hcs : d ∉ cs := fun e => h (by simp [e])
+    simp [Str.splitOn, hc, splitOn_no d cs hcs]
+
+theorem lastLineLen_nl (p ind : Str) (h : '\n' ∉ ind) : lastLineLen (p ++ '\n' :: ind) = ind.length := by
+  rw [lastLineLen_append p _ (by simp)]
+  unfold lastLineLen
+  simp [Str.splitOn, splitOn_no '\n' ind h]
+
+/-- `r'` is `r` with every indentation (the blanks between the last newline of a white space run and the code) changed
+    from `m * u` to `m * u'` characters; `L`, `L'` are the raw tokens up to source maps. Every kept token carries the
+    facts `step_stable` needs (string literals terminated). -/
+inductive Reindent (d : TokenDef) (u u' : Nat) : Str → Str → List (Nat × Str) → List (Nat × Str) → Prop
+  | nil : Reindent d u u' [] [] [] []
+  | tok {x r r' : Str} {dom : Nat} {t : Token} {L L' : List (Nat × Str)} :
+      x ≠ [] → analyzeDomain d (x ++ r) 0 = .ok dom → parser d dom (x ++ r) 0 = .ok (x.length, t) →
+      (dom = Dom.quote → quoteClosed d (x ++ r) = true) → t.type ≠ T.lineBreak →
+      Reindent d u u' r r' L L' → Reindent d u u' (x ++ r) (x ++ r') (simplify t :: L) (simplify t :: L')
+  | lb {p ind ind' r r' : Str} {m : Nat} {L L' : List (Nat × Str)} :
+      (∀ c ∈ p, d.whiteSpace.contains c = true) →
+      (∀ c ∈ ind, d.whiteSpace.contains c = true) → '\n' ∉ ind → ind.length = m * u →
+      (∀ c ∈ ind', d.whiteSpace.contains c = true) → '\n' ∉ ind' → ind'.length = m * u' →
+      headIn d.whiteSpace r = false → headIn d.whiteSpace r' = false →
+      Reindent d u u' r r' L L' →
+      Reindent d u u' (p ++ '\n' :: ind ++ r) (p ++ '\n' :: ind' ++ r')
+        ((T.lineBreak, p ++ '\n' :: ind) :: L) ((T.lineBreak, p ++ '\n' :: ind') :: L')
+
+/-- both sides start with the same character (or are both empty) -/
+theorem Reindent.heads {d : TokenDef} {u u' : Nat} {r r' : Str} {L L' : List (Nat × Str)} (h : Reindent d u u' r r' L L') :
+    (∀ a, headIn a r' = headIn a r) ∧ nlOrEnd r' = nlOrEnd r ∧ (∀ a, wsOrEnd a r' = wsOrEnd a r) := by
+  cases h with
+  | nil => exact ⟨fun _ => rfl, rfl, fun _ => rfl⟩
+  | @tok x r r' _ _ _ _ hx _ _ _ _ _ =>
+    refine ⟨fun a => ?_, ?_, fun a => ?_⟩
+    · rw [headIn_append_of_ne _ _ _ hx, headIn_append_of_ne _ _ _ hx]
+    · rw [nlOrEnd_append_of_ne _ _ hx, nlOrEnd_append_of_ne _ _ hx]
+    · rw [wsOrEnd_append_of_ne _ _ _ hx, wsOrEnd_append_of_ne _ _ _ hx]
+  | @lb p ind ind' r r' _ _ _ _ _ _ _ _ _ _ _ _ _ =>
+    cases p with
+    | nil => exact ⟨fun _ => rfl, rfl, fun _ => rfl⟩
+    | cons c cs => exact ⟨fun _ => rfl, rfl, fun _ => rfl⟩
+
+theorem Reindent.compat {d : TokenDef} {u u' : Nat} (hu' : 0 < u') {r r' : Str} {L L' : List (Nat × Str)}
+    (h : Reindent d u u' r r' L L') : Compat d r r' := by
+  induction h with
+  | nil => exact ⟨[], [], [], rfl, rfl, Or.inl rfl⟩
+  | tok _ _ _ _ _ _ ih => exact ih.cons _
+  | @lb p ind ind' r r' m L L' _ hi _ hl hi' _ hl' _ _ _ ih =>
+    by_cases hne : ind' = []
+    · subst hne
+      -- no indentation on the new side: `m = 0`, so none on the old side either
+      have hm : m = 0 := by
+        simp only [List.length_nil] at hl'
+        cases Nat.mul_eq_zero.mp hl'.symm with
+        | inl h => exact h
+        | inr h => omega
+      have hi0 : ind = [] := by
+        rw [hm, Nat.zero_mul] at hl; exact List.eq_nil_of_length_eq_zero hl
+      subst hi0
+      have := ih.cons (p ++ ['\n'])
+      simpa using this
+    · refine ⟨p ++ ['\n'], ind ++ r, ind' ++ r', by simp, by simp, Or.inr ?_⟩
+      exact headIn_of_all hne hi'
+
+theorem HeadOK_of_heads {d : TokenDef} (hwl : wfLayout d = true) {dom : Nat} {t : Token} {x r r' : Str}
+    (hh : (∀ a, headIn a r' = headIn a r) ∧ nlOrEnd r' = nlOrEnd r ∧ (∀ a, wsOrEnd a r' = wsOrEnd a r))
+    (hp : parser d dom (x ++ r) 0 = .ok (x.length, t)) : HeadOK d dom t r r' := by
+  obtain ⟨h1, h2, h3⟩ := hh
+  refine ⟨?_, ?_, ?_, ?_, ?_⟩
+  · intro _ h; rw [h1] at h; exact h
+  · intro _ h; rw [h1] at h; exact h
+  · intro _ h; rw [h1] at h; exact h
+  · intro hdom
+    have hpc : parseComment d (x ++ r) 0 = .ok (x.length, t) := by
+      unfold parser at hp
+      simp only [hdom, show ¬ Dom.comment = Dom.whiteSpace from by decide, ↓reduceIte] at hp
+      exact hp
+    rw [h2]; exact parseComment_nl hwl hpc
+  · intro _; rw [h3]
+
+/-- a re-indented source lexes to the recorded raw tokens on both sides -/
+theorem Reindent.lexS {d : TokenDef} (hw : wf d = true) (hwl : wfLayout d = true) (ho : orderOK d = true) {u u' : Nat} (hu' : 0 < u')
+    {r r' : Str} {L L' : List (Nat × Str)} (h : Reindent d u u' r r' L L') :
+    Lexer.lexS d r = .ok L ∧ Lexer.lexS d r' = .ok L' := by
+  induction h with
+  | nil => exact ⟨lexS_nil d, lexS_nil d⟩
+  | @tok x r r' dom t L L' hx hd hp hq _ hre ih =>
+    have hl : LookOK d (x ++ r) (x ++ r') := (hre.compat hu').lookOK hwl x
+    have hh : HeadOK d dom t r r' := HeadOK_of_heads hwl hre.heads hp
+    obtain ⟨hd', hv⟩ := step_stable hw hwl x r r' hx hd hp hl hh hq
+    cases hp' : parser d dom (x ++ r') 0 with
+    | error e => rw [hp'] at hv; simp [viewR, Except.map] at hv
+    | ok res =>
+      obtain ⟨e', t'⟩ := res
+      rw [hp'] at hv
+      simp only [viewR, Except.map, Except.ok.injEq, Prod.mk.injEq, Nat.sub_zero] at hv
+      obtain ⟨he, hty, hstr⟩ := hv
+      subst he
+      have hsim : simplify t' = simplify t := by simp [simplify, hty, hstr]
+      have u1 := lexS_unfold hw (x ++ r) (by simp [hx])
+      have u2 := lexS_unfold hw (x ++ r') (by simp [hx])
+      rw [step_of hd hp] at u1
+      rw [step_of hd' hp'] at u2
+      simp only [List.drop_left] at u1 u2
+      rw [u1, u2, ih.1, ih.2, hsim]
+      exact ⟨rfl, rfl⟩
+  | @lb p ind ind' r r' m L L' hp hi hn _ hi' hn' _ hr hr' _ ih =>
+    have key : ∀ (i rr : Str) (LL : List (Nat × Str)), (∀ c ∈ i, d.whiteSpace.contains c = true) → headIn d.whiteSpace rr = false →
+        Lexer.lexS d rr = .ok LL → Lexer.lexS d (p ++ '\n' :: i ++ rr) = .ok ((T.lineBreak, p ++ '\n' :: i) :: LL) := by
+      intro i rr LL hi hrr hLL
+      have hall : ∀ c ∈ p ++ '\n' :: i, d.whiteSpace.contains c = true := by
+        intro c hc
+        simp only [List.mem_append, List.mem_cons] at hc
+        rcases hc with h | h | h
+        · exact hp c h
+        · rw [h]
+          simp only [wfLayout, Bool.and_eq_true] at hwl
+          exact hwl.2
+        · exact hi c h
+      have hcnt : ¬ Str.count '\n' (p ++ '\n' :: i) = 0 := by
+        rw [count_append, count_cons]; simp
+      rw [lexS_ws hw ho (p ++ '\n' :: i) rr (by simp) hall hrr, hLL]
+      simp [Except.map, hcnt]
+    exact ⟨key ind r L hi hr ih.1, key ind' r' L' hi' hr' ih.2⟩
+
+/-- … and these raw tokens agree up to the rescaling of the line-break widths -/
+theorem Reindent.rel {d : TokenDef} {u u' : Nat} {r r' : Str} {L L' : List (Nat × Str)} (h : Reindent d u u' r r' L L') :
+    AllRel (Rescaled u u') (L.map unsimp) (L'.map unsimp) := by
+  induction h with
+  | nil => exact .nil
+  | tok _ _ _ _ hne _ ih =>
+    exact .cons (Rescaled.of_eq (by simpa [unsimp, simplify] using hne) rfl rfl) ih
+  | @lb p ind ind' r r' m L L' _ _ hn hl _ hn' hl' _ _ _ ih =>
+    refine .cons (Rescaled.lb m rfl rfl ?_ ?_) ih
+    · simp only [unsimp]; rw [lastLineLen_nl p ind hn]; exact hl
+    · simp only [unsimp]; rw [lastLineLen_nl p ind' hn']; exact hl'
+
+theorem Rescaled.comp_left {u u' : Nat} {a b c : Token} (h : LBsame a b) (h' : Rescaled u u' b c) : Rescaled u u' a c := by
+  obtain ⟨h1, h2⟩ := h
+  obtain ⟨h3, h4⟩ := h'
+  refine ⟨h1.trans h3, ?_⟩
+  rw [← h1] at h4
+  split
+  · rename_i hl
+    simp only [hl, ↓reduceIte] at h2 h4
+    obtain ⟨m, m1, m2⟩ := h2
+    obtain ⟨n, n1, n2⟩ := h4
+    exact ⟨n, by omega, n2⟩
+  · rename_i hl
+    simp only [hl, ↓reduceIte] at h2 h4
+    exact h2.trans h4
+
+theorem Rescaled.comp_right {u u' : Nat} {a b c : Token} (h : Rescaled u u' a b) (h' : LBsame b c) : Rescaled u u' a c := by
+  obtain ⟨h1, h2⟩ := h
+  obtain ⟨h3, h4⟩ := h'
+  refine ⟨h1.trans h3, ?_⟩
+  rw [← h1] at h4
+  split
+  · rename_i hl
+    simp only [hl, ↓reduceIte] at h2 h4
+    obtain ⟨m, m1, m2⟩ := h2
+    obtain ⟨n, n1, n2⟩ := h4
+    exact ⟨m, m1, by omega⟩
+  · rename_i hl
+    simp only [hl, ↓reduceIte] at h2 h4
+    exact h2.trans h4
+
+theorem AllRel.comp3 {u u' : Nat} {w x y z : List Token} (h1 : AllRel LBsame w x) (h2 : AllRel (Rescaled u u') x y)
+    (h3 : AllRel LBsame y z) : AllRel (Rescaled u u') w z := by
+  induction h1 generalizing y z with
+  | nil => cases h2; cases h3; exact .nil
+  | cons hab _ ih =>
+    cases h2 with
+    | cons hbc hr2 =>
+      cases h3 with
+      | cons hcd hr3 => exact .cons ((Rescaled.comp_left hab hbc).comp_right hcd) (ih hr2 hr3)
+
+/-- `Tokenizer.parse` in terms of `norm` of the raw tokens -/
+theorem tokenize_norm {d : TokenDef} (hw : wf d = true) (hd : ShippedFilters d) (hb : regexBlind d = true)
+    {s : Str} {L : List (Nat × Str)} (h : Lexer.lexS d s = .ok L) :
+    ∃ ts, tokenize d s = rebuild (norm ts ++ [Token.mkEOF]) ∧ AllRel LBsame (norm ts) (norm (L.map unsimp)) := by
+  unfold Lexer.lexS viewL at h
+  cases hp : parseImpl d s with
+  | error e => rw [hp] at h; simp [Except.map] at h
+  | ok ts =>
+    rw [hp] at h
+    simp only [Except.map, Except.ok.injEq] at h
+    subst h
+    obtain ⟨hf, hn⟩ := parseImpl_shape hw hp
+    refine ⟨ts, ?_, norm_rel (unsimp_rel ts) hn (unsimp_lbNL ts hn)⟩
+    simp [tokenize, lexParse, hp, bind, Except.bind, pure, Except.pure, postFilter_norm hd hb hf]
+
+/-- **Width, end to end.** Re-indenting a source from unit `u` to unit `u'` (every indentation `m * u` becomes `m * u'`)
+    leaves `Tokenizer.parse` unchanged up to source maps. -/
+theorem width_chars {d : TokenDef} (hr : layoutReady d) {u u' : Nat} (hu : 0 < u) (hu' : 0 < u') {s s' : Str} {L L' : List (Nat × Str)}
+    (h : Reindent d u u' s s' L L') :
+    (tokenize d s).map (List.map simplify) = (tokenize d s').map (List.map simplify) := by
+  obtain ⟨hw, hwl, ho, hd, hb⟩ := hr
+  obtain ⟨l1, l2⟩ := h.lexS hw hwl ho hu'
+  obtain ⟨ts, t1, r1⟩ := tokenize_norm hw hd hb l1
+  obtain ⟨ts', t2, r2⟩ := tokenize_norm hw hd hb l2
+  have hmid := normR_rel h.rel (lexS_lbNL hw l1) (lexS_lbNL hw l2)
+  have hall := AllRel.comp3 r1 hmid r2.symm'
+  rw [t1, t2]
+  exact rebuildLoop_rel hu hu' (AllRel.append hall (.cons (Rescaled.of_eq (by decide) rfl rfl) .nil)) Ctx.init Ctx.init 0 (CtxRel.init u u')
+
 end Tranp.Lexer
